@@ -12,1707 +12,3056 @@ Definition show_fres (r : fres) : string :=
   end.
 Definition check (rs : list rune) : string := digest (show_fres (format_res rs)).
 Definition full (rs : list rune) : string := show_fres (format_res rs).
-Eval vm_compute in ("<<<M1572>>>" ++ check (runes_of_ascii "// top
-options // c0a
-  // c0b
+Eval vm_compute in ("<<<M3498>>>" ++ check (runes_of_ascii "// top
+options // c0
 { // c1
-ArrayPrefixLenType // c2a
+StringPrefixLenType // c2a
   // c2b
-= u16 // c4a
-  // c4b
+= u8 // c4
 ; // c5a
   // c5b
+ArrayPrefixLenType = // c7a
+  // c7b
+u64 // c8a
+  // c8b
+;
+    // c9
 FixedStringPadFromLeft
-    // c6
-= true ; // c9
-JavaPackage // c10a
-  // c10b
-= ""com.example.msg"" // c12
-; // c13
-GoPackage
-    // c14
-= ""msg""
+    // c10
+= // c11a
+  // c11b
+true // c12
+; // c13a
+  // c13b
+JavaPackage // c14a
+  // c14b
+= ""com.example.msg""
     // c16
-; GoModule
+; GoPackage
     // c18
-= ""example.com/msg"" ; } MetaData Meta // c24
-{
-    // c25
-u32 SeqNum `sequence number` ,
-    // c29
-char[ 8 // c31
-]
+=
+    // c19
+""msg"" ; // c21a
+  // c21b
+GoModule
+    // c22
+=
+    // c23
+""example.com/msg"" // c24a
+  // c24b
+; }
+    // c26
+MetaData Meta { // c29
+u32 SeqNum `sequence number`
     // c32
-Symbol // c33a
-  // c33b
-`symbol`
+, char[
     // c34
-,
-    // c35
-zchar[ // c36a
-  // c36b
-5 // c37a
-  // c37b
-] ZSym // c39
-`z symbol`
-    // c40
-, // c41a
-  // c41b
-string
-    // c42
-Note , // c44
-Symbol
-    // c45
-AltSymbol // c46a
+8 // c35
+] Symbol // c37
+`symbol` // c38a
+  // c38b
+, // c39
+zchar[ // c40
+5 ] ZSym // c43a
+  // c43b
+`z symbol` // c44a
+  // c44b
+, // c45
+string // c46a
   // c46b
-`alias of symbol`
-    // c47
-,
-    // c48
-f64 // c49
-Price // c50a
-  // c50b
-,
-    // c51
-} // c52a
-  // c52b
-packet // c53a
-  // c53b
-Inner // c54
-{
-    // c55
-u8
-    // c56
-a // c57a
-  // c57b
-, // c58a
-  // c58b
-i16
-    // c59
-b // c60
-, // c61a
-  // c61b
-string // c62
-c , // c64a
-  // c64b
-}
-    // c65
-packet Inner2 // c67a
-  // c67b
-{ // c68a
-  // c68b
-u8 a2
-    // c70
-, // c71a
-  // c71b
-char[ 3 ] // c74
-c2 ,
-    // c76
-} packet Logon // c79
-{
-    // c80
-u8 // c81
-x
-    // c82
-,
-    // c83
-string
-    // c84
-user , repeat u16 // c88a
-  // c88b
-codes , // c90
-}
-    // c91
-packet // c92
-Logout // c93a
-  // c93b
-{ // c94
-u16 // c95a
-  // c95b
-reason
-    // c96
-, // c97
-} // c98
-packet
-    // c99
-Empty { // c101a
-  // c101b
-}
-    // c102
-root // c103a
-  // c103b
-packet // c104a
-  // c104b
-Msg
-    // c105
-{ // c106a
-  // c106b
-u8
-    // c107
-su8 // c108
-, uint8
-    // c110
-luint8
-    // c111
-, // c112
-u16
-    // c113
-su16 // c114
-, // c115a
-  // c115b
-uint16 // c116
-luint16 , // c118
-u32 // c119a
-  // c119b
-su32
-    // c120
-, // c121
-uint32
-    // c122
-luint32 // c123a
-  // c123b
-, // c124
-u64 su64 // c126a
-  // c126b
-, uint64 luint64 ,
-    // c130
-i8
-    // c131
-si8 // c132
-, // c133
-int8
-    // c134
-lint8 // c135a
-  // c135b
-, // c136a
-  // c136b
-i16
-    // c137
-si16 // c138
-, // c139a
-  // c139b
-int16 // c140a
-  // c140b
-lint16
-    // c141
-, // c142a
-  // c142b
-i32 // c143a
-  // c143b
-si32 // c144a
-  // c144b
-,
-    // c145
-int32
-    // c146
-lint32 ,
-    // c148
-i64 // c149a
-  // c149b
-si64 // c150a
-  // c150b
-, // c151a
-  // c151b
-int64 lint64 // c153
-,
-    // c154
-f32
-    // c155
-sf32 // c156a
-  // c156b
-, // c157a
-  // c157b
-float32 lfloat32 // c159a
-  // c159b
-,
-    // c160
-f64
-    // c161
-sf64
-    // c162
-,
-    // c163
-float64 lfloat64
-    // c165
-, // c166
-char[
-    // c167
-6 // c168a
-  // c168b
-]
-    // c169
-fsplain
-    // c170
-, // c171
-@leftPad // c172
-( '0' // c174a
-  // c174b
-) char[ 4 ] fs0 // c179
-, // c180a
-  // c180b
-@rightPad
-    // c181
-( '0' // c183a
-  // c183b
-) // c184a
-  // c184b
-char[ 5 // c186
-] // c187a
-  // c187b
-fs1 , // c189a
-  // c189b
-@leftPad
-    // c190
-( // c191
-' '
-    // c192
-) // c193
-char[ // c194
-6 // c195
-] // c196a
-  // c196b
-fs2 // c197
-,
-    // c198
-@rightPad // c199
-(
-    // c200
-' '
-    // c201
-) // c202
-char[
-    // c203
-7 // c204a
-  // c204b
-] fs3 // c206
-, // c207
-@leftPad // c208a
-  // c208b
-( '\x00' // c210a
-  // c210b
-) char[ 8
-    // c213
-] // c214
-fs4 , @rightPad (
-    // c218
-'\x00' // c219
-)
-    // c220
-char[ // c221
-9 // c222a
-  // c222b
-]
-    // c223
-fs5 // c224a
-  // c224b
-, // c225
-@leftPad // c226a
-  // c226b
-(
-    // c227
-) // c228
-char[
-    // c229
-10
-    // c230
-] // c231
-fs6 // c232a
-  // c232b
-, @rightPad // c234a
-  // c234b
-( // c235a
-  // c235b
-) // c236
-char[ 11 // c238a
-  // c238b
-] // c239
-fs7 , // c241a
-  // c241b
-zchar[ 7 // c243
-] fz // c245
-,
-    // c246
-@leftPad
-    // c247
-(
-    // c248
-'0' // c249
-)
-    // c250
-zchar[ // c251a
-  // c251b
-3 // c252a
-  // c252b
-] // c253
-fzl0 // c254a
-  // c254b
-, // c255
-string // c256
-s1
-    // c257
-`doc` // c258a
-  // c258b
-, // c259a
-  // c259b
-char[]
-    // c260
-s2 // c261
-, // c262
+Note , // c48a
+  // c48b
+Symbol // c49a
+  // c49b
+AltSymbol
+    // c50
+`alias of symbol` , f64 // c53
+Price // c54a
+  // c54b
+, } // c56
+packet // c57
 Inner
-    // c263
-, Sub { // c266a
+    // c58
+{ u8
+    // c60
+a ,
+    // c62
+i16 b , string c , // c68
+}
+    // c69
+packet Inner2 { u8
+    // c73
+a2 , // c75
+char[
+    // c76
+3 // c77a
+  // c77b
+]
+    // c78
+c2
+    // c79
+, // c80a
+  // c80b
+} // c81a
+  // c81b
+packet Logon // c83
+{
+    // c84
+u8 // c85a
+  // c85b
+x
+    // c86
+, string // c88
+user
+    // c89
+, // c90a
+  // c90b
+repeat
+    // c91
+u16
+    // c92
+codes // c93
+, // c94a
+  // c94b
+}
+    // c95
+packet // c96a
+  // c96b
+Logout // c97a
+  // c97b
+{ // c98
+u16
+    // c99
+reason
+    // c100
+, // c101a
+  // c101b
+} // c102a
+  // c102b
+packet
+    // c103
+Empty // c104
+{ // c105a
+  // c105b
+} // c106
+root packet // c108a
+  // c108b
+Msg
+    // c109
+{ u8 // c111a
+  // c111b
+su8 // c112a
+  // c112b
+, uint8
+    // c114
+luint8 // c115a
+  // c115b
+, u16 su16 // c118
+, uint16
+    // c120
+luint16 , u32 // c123
+su32
+    // c124
+, // c125
+uint32
+    // c126
+luint32
+    // c127
+,
+    // c128
+u64 su64 , uint64 // c132a
+  // c132b
+luint64 , // c134
+i8
+    // c135
+si8 // c136
+, // c137a
+  // c137b
+int8 // c138
+lint8 // c139a
+  // c139b
+,
+    // c140
+i16 // c141
+si16 // c142
+,
+    // c143
+int16 lint16 // c145a
+  // c145b
+,
+    // c146
+i32 // c147a
+  // c147b
+si32 // c148a
+  // c148b
+,
+    // c149
+int32 // c150a
+  // c150b
+lint32
+    // c151
+, // c152
+i64 si64
+    // c154
+,
+    // c155
+int64 // c156
+lint64
+    // c157
+, // c158
+f32 // c159a
+  // c159b
+sf32 // c160
+, float32 // c162
+lfloat32 // c163a
+  // c163b
+,
+    // c164
+f64 // c165
+sf64
+    // c166
+, // c167a
+  // c167b
+float64 // c168
+lfloat64 , // c170a
+  // c170b
+char[ 6 ] fsplain
+    // c174
+,
+    // c175
+@leftPad // c176
+( // c177
+'0'
+    // c178
+) // c179a
+  // c179b
+char[ // c180a
+  // c180b
+4
+    // c181
+] // c182
+fs0 // c183a
+  // c183b
+, // c184a
+  // c184b
+@rightPad
+    // c185
+( // c186a
+  // c186b
+'0' // c187a
+  // c187b
+) // c188a
+  // c188b
+char[
+    // c189
+5
+    // c190
+] fs1
+    // c192
+, // c193a
+  // c193b
+@leftPad // c194a
+  // c194b
+( // c195a
+  // c195b
+' ' ) // c197
+char[
+    // c198
+6
+    // c199
+] // c200a
+  // c200b
+fs2 // c201a
+  // c201b
+, @rightPad // c203a
+  // c203b
+(
+    // c204
+' '
+    // c205
+)
+    // c206
+char[
+    // c207
+7 ]
+    // c209
+fs3 // c210
+,
+    // c211
+@leftPad // c212a
+  // c212b
+(
+    // c213
+'\x00'
+    // c214
+) // c215
+char[ // c216
+8 ] // c218a
+  // c218b
+fs4 , @rightPad ( '\x00' // c223
+) // c224a
+  // c224b
+char[
+    // c225
+9 ] // c227a
+  // c227b
+fs5 // c228a
+  // c228b
+, @leftPad // c230
+( // c231a
+  // c231b
+) char[ // c233a
+  // c233b
+10
+    // c234
+] // c235
+fs6
+    // c236
+, // c237
+@rightPad // c238
+( // c239
+) // c240a
+  // c240b
+char[ // c241
+11
+    // c242
+] // c243
+fs7
+    // c244
+,
+    // c245
+zchar[ // c246
+7
+    // c247
+] // c248a
+  // c248b
+fz , // c250
+@leftPad // c251
+( // c252a
+  // c252b
+'0' ) // c254a
+  // c254b
+zchar[ 3 ]
+    // c257
+fzl0 // c258
+, string s1 `doc`
+    // c262
+, // c263
+char[]
+    // c264
+s2 // c265
+, // c266a
   // c266b
-u8
+Inner
     // c267
-q // c268
-, string w // c271a
-  // c271b
+, // c268a
+  // c268b
+Sub // c269
+{ // c270a
+  // c270b
+u8
+    // c271
+q // c272
 ,
-    // c272
-Deep // c273a
-  // c273b
-{ u16 // c275
-z // c276a
+    // c273
+string
+    // c274
+w // c275
+, // c276a
   // c276b
-, // c277
-repeat i32 // c279a
+Deep { // c278a
+  // c278b
+u16 // c279a
   // c279b
-zs // c280a
-  // c280b
-,
-    // c281
-}
-    // c282
-,
-    // c283
-}
-    // c284
-, repeat // c286
-u8 ru8 , // c289
-repeat u16 // c291
-ru16 // c292
-, // c293a
-  // c293b
+z // c280
+, repeat // c282a
+  // c282b
+i32 // c283
+zs , // c285a
+  // c285b
+} , // c287
+} , // c289
+repeat
+    // c290
+u8
+    // c291
+ru8
+    // c292
+, // c293
 repeat
     // c294
-u32 ru32 // c296a
+u16 // c295a
+  // c295b
+ru16 // c296a
   // c296b
 , // c297
 repeat // c298a
   // c298b
-u64
-    // c299
-ru64 , repeat
-    // c302
+u32 // c299
+ru32 // c300
+,
+    // c301
+repeat // c302a
+  // c302b
+u64 // c303a
+  // c303b
+ru64
+    // c304
+, // c305
+repeat // c306
 i8
-    // c303
-ri8 // c304a
-  // c304b
-, repeat // c306
-i16 // c307a
-  // c307b
-ri16
-    // c308
-, repeat i32 // c311a
-  // c311b
-ri32 // c312a
-  // c312b
-,
-    // c313
-repeat
-    // c314
-i64 ri64 // c316
-,
-    // c317
-repeat // c318
-f32 rf32 ,
-    // c321
-repeat // c322
-f64 // c323
-rf64
-    // c324
+    // c307
+ri8 , repeat // c310a
+  // c310b
+i16
+    // c311
+ri16 // c312
+, repeat i32 // c315a
+  // c315b
+ri32
+    // c316
+, // c317a
+  // c317b
+repeat i64 // c319
+ri64 // c320a
+  // c320b
+, // c321
+repeat f32 // c323a
+  // c323b
+rf32 // c324a
+  // c324b
 ,
     // c325
-repeat // c326a
-  // c326b
-string // c327
-rstr ,
-    // c329
 repeat
-    // c330
-char[] // c331
-rstr2 // c332
-, // c333a
-  // c333b
-repeat char[ // c335a
-  // c335b
-3 // c336a
-  // c336b
-] // c337a
-  // c337b
-rfs , // c339
-repeat zchar[
-    // c341
-3 // c342a
-  // c342b
-] // c343
-rfz , repeat // c346
-Inner2 , // c348
-repeat Grp
-    // c350
-{ u8
-    // c352
-k // c353a
-  // c353b
-,
-    // c354
-char[ // c355
-2
-    // c356
-]
-    // c357
-v // c358
-,
-    // c359
-}
-    // c360
-, // c361a
-  // c361b
-SeqNum ,
-    // c363
-SeqNum seq2 // c365a
-  // c365b
-, repeat SeqNum // c368a
-  // c368b
-seqs // c369a
-  // c369b
-, // c370
-Symbol // c371
-, // c372a
-  // c372b
-AltSymbol alt , // c375
-ZSym
-    // c376
-,
-    // c377
-Note
-    // c378
-, // c379a
-  // c379b
-repeat // c380a
-  // c380b
-Symbol // c381a
-  // c381b
-syms
-    // c382
-, // c383a
-  // c383b
-Price px
-    // c385
-,
-    // c386
-u16 MsgType , u32
-    // c390
-BodyLen // c391
-@lengthOf( Body // c393a
-  // c393b
-) // c394a
-  // c394b
-,
-    // c395
-match MsgType // c397
-as Body
-    // c399
-{
-    // c400
-1 // c401a
-  // c401b
-:
-    // c402
-Logon
-    // c403
-, // c404a
-  // c404b
-[ // c405a
-  // c405b
-2 // c406
-, 3 // c408a
-  // c408b
-] // c409
-:
-    // c410
-Logout , // c412
-7 : // c414
-Logon
-    // c415
-, // c416
-9
-    // c417
-: // c418
-Empty , // c420
-} // c421a
-  // c421b
-,
-    // c422
-u32 Checksum // c424
-@calculatedFrom( // c425
-""CRC32"" // c426a
-  // c426b
-) // c427
-, // c428a
-  // c428b
-}
-    // c429
-")).
-Eval vm_compute in ("<<<M239>>>" ++ check (runes_of_ascii "packet
-//
-// " ++ [128512]%N ++ runes_of_ascii " emoji
-body	{ @calculatedFrom(""" ++ [233]%N ++ runes_of_ascii "t" ++ [233]%N ++ runes_of_ascii """
-) body {o@calculatedFrom(  """ ++ [233]%N ++ runes_of_ascii "t" ++ [233]%N ++ runes_of_ascii """ ), }
-,  char  i8i8 @lengthOf(	int ) `doc` ,	@rightPad ( )
-char[0 ] tag@lengthOf( repeatCount ), @calculatedFrom("""" ) x
-@calculatedFrom(""" ++ [28040; 24687]%N ++ runes_of_ascii """ )
-, @calculatedFrom( """"
-)// c
-Packet `u8 x,`
-    , // trailing space 
-string x_y_z, string_ charz
-    `doc` ,	match packetx as
-string_ {
-    00  : asx , [  ""\n""] // " ++ [128512]%N ++ runes_of_ascii " emoji
-: float , [""" ++ [28040; 24687]%N ++ runes_of_ascii """
-// @lengthOf(
-/// triple
-, 3
-] :
-    Foo, [ 0123456789 ,  ""1""
-] : o	""\" ++ [233]%N ++ runes_of_ascii """
-    : _x  ,  0123456789
-: matchKey
-} , @rightPad (
-' ')stringy
-    { match calculatedFrom as o	{// c
-1
-:
-x_y_z
-, 007:pack
-    ,3 : asx
-    // trailing space 
-    , // " ++ [27880; 37322]%N ++ runes_of_ascii "
-} ,
-} , @calculatedFrom( """"
-    ) @tag(  4294967296 ) repeat i64// packet A { u8 x, }
-chars  ,	} packet roots { }root
-packet	rootA { @tag( 255 ) pack
-`it's`, @lengthOf( f32a ) @tag(
-    // a // b
-    1 )
-    @tag(
-    7)
-    // " ++ [128512]%N ++ runes_of_ascii " emoji
-    Foo	@calculatedFrom(
-//x
-//
-""" ++ [128512]%N ++ runes_of_ascii """ ) , repeat calculatedFrom { string leftPad
-    `doc` ,repeat
-crc{ pack @calculatedFrom( ""\" ++ [233]%N ++ runes_of_ascii """) ,
-    } , }, string_ { match
-i64_ as u8x  { 0 :
-    _x
-, } ,
-}	, @lengthOf( u128
-    ) // trailing space 
-match asx as charz
-{ [ """" ,	4294967296 ] : A,// trailing space 
-1 : options1 , 4294967296 :  pack 42 :charz
-, [ ""`tick`"" , // a // b
-""x y"" /// triple
-, // " ++ [27880; 37322]%N ++ runes_of_ascii "
-255
-] // packet A { u8 x, }
-: stringy ,} ,
-@rightPad (' ' ) @lengthOf(// c
-Packet
-    ) repeat uint8x trueish ,
-} MetaData i8i8
-    { zchar[
-10]Z9_ , zchar[ 0 ] Header
-    `a\`, stringy roots // " ++ [27880; 37322]%N ++ runes_of_ascii "
-,}
-    packet options1 // c
-{
-    char[10
-] Pad @calculatedFrom( ""\n"") `// not a comment` , roots , @calculatedFrom( ""x y""
-)	zchar, @rightPad ( '0' )
-    repeat
-string
-//x
-//
-roots`say ""hi""` ,}
-")).
-Eval vm_compute in ("<<<M1561>>>" ++ check (runes_of_ascii "// top
-options // c0
-{ LittleEndian = // c3
-false // c4a
-  // c4b
-; // c5a
-  // c5b
-ArrayPrefixLenType // c6a
-  // c6b
-= // c7
-u64 // c8
-; // c9a
-  // c9b
-FixedStringPadChar = // c11
-'0' ; } packet // c15a
-  // c15b
-Quote { // c17a
-  // c17b
-repeat InFlags37
-    // c19
-{ char[]
-    // c21
-lastPx , // c23
-}
-    // c24
-,
-    // c25
-i16
-    // c26
-tag7
-    // c27
-, char[] f1 // c30
-, zchar[
-    // c32
-6 // c33a
-  // c33b
-] // c34
-Note , } // c37a
-  // c37b
-packet
-    // c38
-Order // c39a
-  // c39b
-{ u8 // c41
-Ref // c42a
-  // c42b
-,
-    // c43
-repeat // c44a
-  // c44b
-Quote
-    // c45
-,
-    // c46
-repeat string // c48
-Acct // c49
-, // c50
-}
-    // c51
-root
-    // c52
-packet // c53
-Heartbeat
-    // c54
-{ // c55
-repeat // c56a
-  // c56b
-Quote // c57
-, @leftPad ( // c60
-'0'
-    // c61
-) // c62a
-  // c62b
-char[ 11 // c64
-] // c65
-OrderId // c66
-, // c67
-zchar[
-    // c68
-8 // c69a
-  // c69b
-] // c70a
-  // c70b
-Ref // c71
-, // c72
-u32 // c73
-Flags
-    // c74
-, // c75
-u32 // c76
-Tail // c77
-@lengthOf( Body // c79
-)
-    // c80
-, match
-    // c82
-Flags
-    // c83
-as // c84
-Body {
-    // c86
-156 // c87
-:
-    // c88
-Order // c89a
-  // c89b
-, 7 // c91
-: Quote
-    // c93
-, // c94a
-  // c94b
-} ,
-    // c96
-}
-    // c97
-")).
-Eval vm_compute in ("<<<M252>>>" ++ check (runes_of_ascii "packet u  { Header {
-float64	Foo@lengthOf( Pad
-    ) `{ , }`,	leftPad @calculatedFrom(""a	b"" )
-    ,msg_type {
-Z9_	@lengthOf(
-    u8x ) ,
-    falsey , len @lengthOf( float // " ++ [27880; 37322]%N ++ runes_of_ascii "
-) `it's`
-    , repeat int64
-options1	`a\` , } , // trailing space 
-} ,
-//	t
-// " ++ [128512]%N ++ runes_of_ascii " emoji
-falsey// `tick` ""quote"" 'q'
-u8x , zchar[  1 ]
-x `` ,
-    @lengthOf( uint8x
-) crc
-    @lengthOf(matchKey )  , repeat f32 string_
-// `tick` ""quote"" 'q'
-//
-,packetx,
-    // " ++ [27880; 37322]%N ++ runes_of_ascii "
-    u8x
-    { f64
-Header , repeat uint8 uint8x , x_y_z
-{  match string_
-// " ++ [27880; 37322]%N ++ runes_of_ascii "
-//	t
-as a1 { [// `tick` ""quote"" 'q'
-255
-]  : f32a// @lengthOf(
-, [
-""packet""  ,""1"" , 00 ,
-    """ ++ [128512]%N ++ runes_of_ascii """,  4294967296 , 4294967296]:Logon , } , pack @lengthOf( options1 ), zchar[  1 ] crc ``,}	, } , rootA zchar ,}
-options { uint8x
-= 4294967296
-// " ++ [27880; 37322]%N ++ runes_of_ascii "
-// @lengthOf(
-tag // `tick` ""quote"" 'q'
-=
-float32 ; o = true ; // trailing space 
-rootA =
-    // @lengthOf(
-    ""packet"" ; } //x
-packet float
-    {
-    } // " ++ [27880; 37322]%N ++ runes_of_ascii "
-options	{ // " ++ [27880; 37322]%N ++ runes_of_ascii "
-msg_type// c
-= i16 ;
-    trueish = zchar[ 1 ] ; Logon =
-    ""abc"" rootA = i16 ; } MetaData rootA
-{
-}
-")).
-Eval vm_compute in ("<<<M1565>>>" ++ check (runes_of_ascii "
-options  { 
-LittleEndian=  false ;
-FixedStringPadFromLeft
-=  false ; FixedStringPadChar= ' '
-; }	packet
-
-    Fill
-
-{ uint16 Qty
-	,  uint64 
-clOrdID,repeat 
-i64 Flags ,
-
-} 
-packet 
-Ack	{
-	zchar[
-7
-] clOrdID ,	u64
-
-    lastPx
-,
-
-    char[]	Note
-,
-repeat Fill
-,
-    int32
-count 
-,
-}
-packet Quote
-	{	u8
-venue
-
-    ,
-	InRef40 { 
-char[]
-    Qty
-,
-}
-,zchar[
-
-    5
-]
-Flags
-    ,
-    @rightPad ('\x00')
-    char[  12	]msgKind
-
-, }
-
-packet
-    Logout
-	{
-InSym79
-	{  int32
-
-    Qty , Fill ,
-
-char[3
-
-]x
-    ,
-
-repeat  InNote29
-
-{
-
-    i16 price ,
-	Ack
-    , 
+    // c326
 f64
-	x
+    // c327
+rf64
+    // c328
+, repeat // c330
+string rstr , // c333
+repeat char[] // c335
+rstr2 // c336
+, // c337a
+  // c337b
+repeat
+    // c338
+char[ 3 // c340a
+  // c340b
+] // c341
+rfs // c342a
+  // c342b
 ,
-
-zchar[
-8	]
-count
-,}
-,
-    } ,
-} 
-root
-
-    packet
-    Logon { zchar[	1 ]
-	sym
-,  u32 count,
-
-u16
-	tag7 
-@lengthOf(
-
-Body
-    ) 
-,match 
-count
-
-    as  Body{  [
-    122 
-,
-152	]:
-
-Ack
-,  118  : Logout
-,
-61
-    : Quote , 
-161
-: 
-Fill
-    ,
-    }
-,
-u32
-Acct 
-@calculatedFrom( 
-""CRC32"" ),
-}
-")).
-Eval vm_compute in ("<<<M303>>>" ++ check (runes_of_ascii "root packet tag
-    //x
-    { @tag(
-// trailing space 
-//x
-4294967296) zchar[ 255
-    ]
-    Foo	@calculatedFrom( ""\" ++ [233]%N ++ runes_of_ascii """  )// trailing space 
-, @lengthOf( // packet A { u8 x, }
-packetx
-) @tag( 1) @lengthOf( string_ ) // a // b
-zchar[
-255] u	, Z9_ {repeat stringy  {repeat
-body , }
-    ,
-    // `tick` ""quote"" 'q'
-    } ,
-    //
-    repeat uint8  a1 , i64// c
-tag  ,
-    // " ++ [128512]%N ++ runes_of_ascii " emoji
-    }
-    packet uint8x { // a // b
-@lengthOf( BodyLength	) @lengthOf( int )
-    //
-    uint64 As `{ , }` ,
-    char[
-65535	] zchar
-// " ++ [27880; 37322]%N ++ runes_of_ascii "
-// trailing space 
-@lengthOf(
-    stringy ) `tab	here` ,rootA @calculatedFrom( // a // b
-""x y"" ) , repeat options1	{ i8i8 calculatedFrom,
-// " ++ [27880; 37322]%N ++ runes_of_ascii "
-// `tick` ""quote"" 'q'
-}, repeat char[ 0]
-    MetaDataX ,} //")).
-Eval vm_compute in ("<<<M1507>>>" ++ check (runes_of_ascii "// top
-options
-    // c0
-{ // c1a
-  // c1b
-FixedStringPadChar // c2a
-  // c2b
-= // c3a
-  // c3b
-'0' // c4
-; // c5
-} // c6
-packet // c7
-Q
-    // c8
-{ // c9
-zchar[
-    // c10
-4 // c11a
-  // c11b
-] // c12
-z
-    // c13
-,
-    // c14
-@rightPad // c15
-( // c16a
-  // c16b
-'\x00' // c17a
-  // c17b
-) // c18
-char[ 3 // c20
-] // c21a
-  // c21b
-n
-    // c22
-, char[ // c24
-5 ]
-    // c26
-d // c27
-,
-    // c28
-} root // c30
-packet R // c32
-{ // c33
-Q
-    // c34
-, // c35
-zchar[ // c36
-8 // c37a
-  // c37b
+    // c343
+repeat zchar[ 3
+    // c346
 ]
-    // c38
-top // c39a
-  // c39b
-, repeat // c41a
-  // c41b
-zchar[ // c42
-2 // c43a
-  // c43b
-] // c44
-zs // c45
-, // c46
-}
-    // c47
-")).
-Eval vm_compute in ("<<<M2033>>>" ++ check (runes_of_ascii "packet BodyLength {
-    repeat f32a Pad `// not a comment`,
-    // " ++ [128512]%N ++ runes_of_ascii " emoji
-    // c
-}
-
-MetaData As {
+    // c347
+rfz // c348a
+  // c348b
+, repeat // c350
+Inner2 // c351a
+  // c351b
+,
+    // c352
+repeat Grp { // c355a
+  // c355b
+u8 // c356a
+  // c356b
+k
+    // c357
+,
+    // c358
+char[ 2 // c360
+]
+    // c361
+v // c362
+, } ,
+    // c365
+SeqNum // c366
+, // c367
+SeqNum
+    // c368
+seq2
+    // c369
+, // c370a
+  // c370b
+repeat // c371
+SeqNum seqs
+    // c373
+,
+    // c374
+Symbol // c375
+, // c376
+AltSymbol // c377a
+  // c377b
+alt , // c379a
+  // c379b
+ZSym // c380a
+  // c380b
+, // c381a
+  // c381b
+Note , // c383
+repeat Symbol
+    // c385
+syms // c386a
+  // c386b
+, // c387
+Price px , // c390
+u16 MsgType // c392
+, u32
+    // c394
+BodyLen @lengthOf(
+    // c396
+Body // c397a
+  // c397b
+)
+    // c398
+, // c399
+match
+    // c400
+MsgType
+    // c401
+as // c402
+Body
+    // c403
+{
+    // c404
+1 // c405a
+  // c405b
+: Logon
+    // c407
+, [ // c409a
+  // c409b
+2 , 3 // c412a
+  // c412b
+] // c413a
+  // c413b
+: // c414
+Logout // c415
+, // c416a
+  // c416b
+7 : Logon // c419
+,
+    // c420
+9
+    // c421
+:
+    // c422
+Empty // c423a
+  // c423b
+, // c424a
+  // c424b
+} // c425a
+  // c425b
+,
+    // c426
+u32 // c427a
+  // c427b
+Checksum @calculatedFrom(
+    // c429
+""CRC32""
+    // c430
+) , } ")).
+Eval vm_compute in ("<<<M3994>>>" ++ check (runes_of_ascii "packet roots {
+    char[] falsey @calculatedFrom(""`tick`"") `{ , }`,
+    match tag as BodyLength {
+        // @lengthOf(
+        ""packet"" : T,
+        42 : f32a,
+        255 : lengthOf,
+        // " ++ [27880; 37322]%N ++ runes_of_ascii "
+    },
+    BodyLength {
+        Z9_ {
+            stringy {
+                metadata,
+            },
+            zchar @lengthOf(x_y_z),
+            match lengthOf as float {
+                10 : repeatCount,
+            },
+            repeat string Pad `u8 x,`,
+        },
+        charz {
+            repeat lengthOf {
+                zchar[007] f32a @calculatedFrom(""it's"") `" ++ [28040; 24687; 31867; 22411]%N ++ runes_of_ascii "`,
+                uint64 tag @calculatedFrom(""packet"") `" ++ [233]%N ++ runes_of_ascii "`,
+                char[10] calculatedFrom `tab	here`,
+                char[] Logon `" ++ [28040; 24687; 31867; 22411]%N ++ runes_of_ascii "`,
+            },
+            i16 x_y_z `doc`,
+            // packet A { u8 x, }
+            // trailing space 
+            string u128,
+        },
+    },
+    Foo @lengthOf(o),
+    i32 int,
+    options1,
 }
 
 options {
-    crc = ""a\\""
-    float = '\x00'
-    a1 = ' ';
-    i8i8 = 4294967296
+    // " ++ [128512]%N ++ runes_of_ascii " emoji
+    // trailing space 
+    leftPad = '\x00';
+    Foo = 255
+    x = true;
 }
 
-packet u128 {
-    // `tick` ""quote"" 'q'
-    //
-    match stringy as o {
-        ""`tick`"" : Foo,
-        [4294967296] : x_y_z,
+packet x {
+    @calculatedFrom(""" ++ [28040; 24687]%N ++ runes_of_ascii """)
+    repeat u8 As,
+    repeat char[42] A,
+    int8 o `two words`,
+    @lengthOf(asx)
+    @lengthOf(tag)
+    match trueish as lengthOf {
+        0 : o,
+        ""{,}"" : chars,
+        [""packet""] : A,
+        ""\" ++ [233]%N ++ runes_of_ascii """ : pack,
+        [
+            ""\n"", 10, ""CRC32"", 00, 007,
+            42, 0123456789, """"
+        ] : stringy,
+        ""packet"" : i64_,
     },
-    zchar[10] Packet @lengthOf(u8x),
-    @lengthOf(roots)
-    // " ++ [27880; 37322]%N ++ runes_of_ascii "
-    x `// not a comment`,
-    i64 asx @lengthOf(rootA),
-    metadata,
-    i64_ @calculatedFrom(""\" ++ [233]%N ++ runes_of_ascii """),
-    @lengthOf(u128)
-    repeat o `two words`,
-}")).
-Eval vm_compute in ("<<<M251>>>" ++ check (runes_of_ascii "options { tag
-=
-false// c
-; charz =
-char[
-    //
-    4294967296 ] ; float = ' '; u =// `tick` ""quote"" 'q'
-zchar[ 255
-    ] x//x
-=
-    ""a\""b""}
-packet leftPad /// triple
-{match
-As as
-    falsey{ [ 10
-    ,0123456789, 007
-,
-""" ++ [28040; 24687]%N ++ runes_of_ascii """
-// a // b
-// trailing space 
-, //	t
-""packet""	, ""`tick`"", ""1"" ] :
-calculatedFrom , } ,@calculatedFrom(
-    ""it's""
-) float64// c
-x_y_z @lengthOf(  leftPad ) , trueish
-@lengthOf(packetx)
-    , }options
-{ string_	=
-    ""a\""b"" ;
-_x = false }
-")).
-Eval vm_compute in ("<<<M353>>>" ++ check (runes_of_ascii "options { len=
+    repeatCount,
+    i32 zchar @lengthOf(Logon) `tab	here`,
+    zchar @calculatedFrom(""CRC32"") `u8 x,`,
+    @lengthOf(lengthOf)
     // c
-    ""abc""
-; lengthOf = // trailing space 
-true ;} packet
-float {
-    @tag( 65535
+    @rightPad()
+    Packet @calculatedFrom(""// no comment""),
+    @tag(10)
+    // trailing space 
+    // `tick` ""quote"" 'q'
+    len `a\`,// " ++ [128512]%N ++ runes_of_ascii " emoji
+}
+
+packet _x {
+}
+
+root packet uint8x {
+    uint8 falsey `" ++ [233]%N ++ runes_of_ascii "`,
+    zchar[007] stringy,
+    BodyLength float,
+    zchar[1] roots,
+    uint8 Packet,
+    repeat float64 repeatCount,
+    repeat char f32a `
+        `,
+    i32 a1 `crlf
+        line`,
+}// @lengthOf(")).
+Eval vm_compute in ("<<<M11>>>" ++ check (runes_of_ascii "  MetaData //	t
+len { char[ 007 ] T
+, }packet
+    chars {
+@tag( 0
+)
+char[] stringy @calculatedFrom( ""a\""b"" //x
+) `" ++ [233]%N ++ runes_of_ascii "`	,@tag( // trailing space 
+65535
+)	repeat
+o MetaDataX
+,
+    crc@lengthOf( i8i8 ),
+@calculatedFrom(
+/// triple
+// `tick` ""quote"" 'q'
+""x y""
+    ) roots@lengthOf(packetx ) , @calculatedFrom(  ""1"" )
+@lengthOf( Logon
+) @lengthOf( x ) repeat
+    T pack, @lengthOf( lengthOf)@tag(  42 ) i64 crc // c
+@calculatedFrom( ""packet"" ) `
+` ,
+i8i8
+    `` , }  packet len
+    {
+match u128	as string_ { 65535 :u128 ,
+    }
+, As ,
+    Header ,// " ++ [27880; 37322]%N ++ runes_of_ascii "
+@rightPad
+('\x00'
+)
+    @leftPad
+    (
+    '\x00' ) asx
+    {
+    /// triple
+    repeat
+BodyLength { asx {	repeat
+u32
+    // @lengthOf(
+    Header , repeat
+    i64  i64_,
+// 50% %s
+// `tick` ""quote"" 'q'
+match rootA as float
+    // c
+    { [ 007 , ""CRC32"",
+    7 ,
+""it's"" , 7	, 3 ] : x_y_z , 007 : pack , } , char[]
+metadata @lengthOf( BodyLength )
+// " ++ [128512]%N ++ runes_of_ascii " emoji
+// `tick` ""quote"" 'q'
+,}
+,
+repeat
+    char[00
+] u `{ , }` // " ++ [27880; 37322]%N ++ runes_of_ascii "
+,  repeat
+zchar[
+    3 ]	tag ,repeat crc
+    int `line1
+line2` ,} ,// `tick` ""quote"" 'q'
+char[255 ] asx @lengthOf(chars)  ,int64
+Foo
+    ``
+, _x{ T
+{ string_	`" ++ [28040; 24687; 31867; 22411]%N ++ runes_of_ascii "` , char[] chars
+    , }, repeat
+    a1 { repeatCount
+@lengthOf( o )
+,i64 leftPad
+,	zchar[
+255// `tick` ""quote"" 'q'
+]  float@calculatedFrom(  ""\" ++ [233]%N ++ runes_of_ascii """
+), repeat string i8i8
+,
+// trailing space 
+// `tick` ""quote"" 'q'
+}  ,}, } , @calculatedFrom(
+""abc""
+) repeat f32a trueish `u8 x,`	, match calculatedFrom as
+// packet A { u8 x, }
+// @lengthOf(
+stringy { [ 1, 65535
+    ]
+:u , } , } packet options1
+    {
+string calculatedFrom// a // b
+`" ++ [233]%N ++ runes_of_ascii "`// c
+,
+    @lengthOf( x_y_z
+    ) zchar[0123456789]
+x_y_z// trailing space 
+@lengthOf(
+falsey ) `a\`
+    ,	}
+")).
+Eval vm_compute in ("<<<M315>>>" ++ check (runes_of_ascii "
+packet a1 { @calculatedFrom(
+""\n""
+// 50% %s
+// packet A { u8 x, }
+) zchar[ 4294967296 ]  asx  ,
+    crc
+    `100% of %d` , tag Pad , @leftPad
+    ( '\x00')body { zchar[ 255 ] u8x `" ++ [28040; 24687; 31867; 22411]%N ++ runes_of_ascii "` , repeat u64
+    pack `it's`, }, match	falsey	as // `tick` ""quote"" 'q'
+o { [ 0123456789, ""1""
+]: u128 ,} ,
+repeat
+packetx len
+,  match crc as msg_type {
+3 :
+A, [""x y"" , 7// a // b
+] :u , """ ++ [233]%N ++ runes_of_ascii "t" ++ [233]%N ++ runes_of_ascii """:rootA,
+1 : f32a , } , Pad
+    @lengthOf( //x
+float )  ,
+x // " ++ [27880; 37322]%N ++ runes_of_ascii "
+{ zchar[007 ] falsey,} ,
+} packet stringy  {
+    @rightPad ( '\x00'
+)repeat BodyLength Header ,@lengthOf(int ) i64
+matchKey `u8 x,`  ,repeat x_y_z{
+    repeat
+zchar[ 65535 ] charz `u8 x,` //	t
+, roots/// triple
+@calculatedFrom("""" // c
+) ,
+    }	, // @lengthOf(
+tag {	i16
+    trueish `{ , }` ,},u8x
+    @lengthOf( stringy ) `u8 x,` , chars@calculatedFrom( ""1"" ),
+    char[10
+    ]//x
+trueish
+    `two words`
+    , string As @calculatedFrom(
+    ""it's""
+) `" ++ [233]%N ++ runes_of_ascii "` ,	@tag( 3 // a // b
+) msg_type ,
+char[ 7  ]
+    // c
+    trueish@calculatedFrom( ""\" ++ [233]%N ++ runes_of_ascii """ ) ,} packet	charz//	t
+{
+    // packet A { u8 x, }
+    char[]lengthOf
+    `{ , }`
+,@calculatedFrom( """"
+    ) @lengthOf( f32a) @tag(
+4294967296 /// triple
+)
+repeat x { u16 tag @calculatedFrom( ""abc"" )  , u32 roots `crlf
+line`/// triple
+, repeat
+    // @lengthOf(
+    int
+// @lengthOf(
+/// triple
+tag ,
+    i8 Pad,
+} , string uint8x  @calculatedFrom( ""{,}""
+    // 50% %s
+    ) `it's`	, }
+")).
+Eval vm_compute in ("<<<M622>>>" ++ check (runes_of_ascii "packet metadata{ @calculatedFrom( ""x y"")
+    roots@lengthOf(
+roots)	,
+    repeatCount chars , @calculatedFrom(""packet"" )repeat int64
+    Z9_ , Logon @calculatedFrom( ""packet""
+),  f32a@calculatedFrom( ""a	b"") `doc` ,
+trueish
+@lengthOf(Z9_), //x
+@tag(4294967296 )
+    // 50% %s
+    repeat i64
+Logon `100% of %d` ,
+    f32a x_y_z
+, }
+    options
+    {pack  =""1"" // a // b
+;
+roots =
+    10 ; falsey =// trailing space 
+false	stringy
+= ' ' ;
+trueish //	t
+=  '\x00' ; } packet i64_
+{ @calculatedFrom( ""abc""
+    )u8 roots
+    , // c
+@leftPad (
+'\x00' ) char[1 ]
+u128  @lengthOf(options1 ) `tab	here` ,
+    @calculatedFrom( """" ) @lengthOf( body
+    ) char[]
+    calculatedFrom ,@lengthOf(	crc ) @lengthOf( _x
+) @rightPad ( ' ' ) // @lengthOf(
+match u8x as A { [""// no comment"" , 0123456789]
+    // packet A { u8 x, }
+    : // trailing space 
+Packet , 007 :asx
+, } ,
+match
+    stringy as	falsey {  7 : stringy /// triple
+}
+    , Header //
+`it's`
+    ,
+    @calculatedFrom( ""\n""	)@rightPad (
+    '0' ) @lengthOf(
+    As )
+    len	T ,@leftPad (
+    '\x00'//
+) leftPad
+{ u @calculatedFrom( ""abc""// c
+) `{ , }` , i8
+    Foo `` ,
+    zchar[
+    1 ] stringy
+`crlf
+line` , },pack `u8 x,` , @rightPad (' ' // " ++ [27880; 37322]%N ++ runes_of_ascii "
+)	match
+    string_
+    as
+o	{ 7: u }, // a // b
+}
+")).
+Eval vm_compute in ("<<<M785>>>" ++ check (runes_of_ascii "root packet Logon { zchar[ 00 ] roots  @calculatedFrom(	""a\""b""
+)  ,} MetaData /// triple
+int{ float roots , char	u8x  `u8 x,` , uint64	_x , u128 chars  `doc`,
+zchar string_
+    ,	char[	1
+] string_ , } packet trueish
+{
+asx { msg_type { repeat string A `// not a comment` , }
+// 50% %s
+// packet A { u8 x, }
+, }	, u32 asx
+@calculatedFrom( ""packet""
+    )
+, match  u128 as	len { [
+"""" , ""\n""
+    ]
+    : i64_, 0123456789
+:options1 ""abc"" : As// " ++ [27880; 37322]%N ++ runes_of_ascii "
+[	007 , 3 , ""{,}""
+    , ""`tick`""
+, ""a	b"" ,
+    10 , ""abc"" ]
+: u128 , } , uint32 i64_
+    @lengthOf( i8i8)
+,
+    // packet A { u8 x, }
+    u64 charz @calculatedFrom(
+    ""{,}""
+    )
+`say ""hi""`	, match charz
+as //x
+calculatedFrom
+{ [ ""a	b"" , 4294967296 ,
+    10	,
+1 ,  0, 0123456789
+    ]
+//x
+// " ++ [128512]%N ++ runes_of_ascii " emoji
+:
+msg_type ,
+""it's"" : Pad ,3	:
+    MetaDataX
+3: lengthOf ""a\\"" :
+int
+, 007 :Header } ,// c
+@calculatedFrom( ""it's"" ) u8  asx // " ++ [27880; 37322]%N ++ runes_of_ascii "
+@lengthOf( Foo // packet A { u8 x, }
+)
+`{ , }`
+    ,
+    // @lengthOf(
+    @calculatedFrom(
+""a\\"" ) len @calculatedFrom(
+""""  ) `tab	here` , T
+falsey//x
+,
+As@lengthOf( leftPad
+) , } MetaData u8x { A Header`{ , }` ,zchar[ 42  ]  crc  `doc` , _x
+    lengthOf, charz
+lengthOf, }
+")).
+Eval vm_compute in ("<<<M4004>>>" ++ check (runes_of_ascii "root packet charz {
+    o A,
+}
+
+root packet charz {
+    char[] repeatCount @lengthOf(tag) `line1
+    line2`,
+    repeat pack `two words`,
+    T {
+        // packet A { u8 x, }
+        string rootA @calculatedFrom(""{,}""),
+    },
+    repeat As Foo,
+    // packet A { u8 x, }
+    // c
+    char[3] trueish,
+    @calculatedFrom("""")
+    @lengthOf(metadata)
+    @leftPad('0')
+    repeat u64 float `u8 x,`,
+    stringy {
+        metadata {
+            //x
+            u8 f32a `" ++ [28040; 24687; 31867; 22411]%N ++ runes_of_ascii "`,
+            repeat char[007] f32a `two words`,
+        },
+        asx,
+        float64 i8i8,
+        //x
+        // packet A { u8 x, }
+    },
+    match lengthOf as zchar {
+        00 : o,
+    },
+}
+
+options {
+    tag = 65535;
+    /// triple
+    // 50% %s
+    float = 0
+}
+
+packet T {
+    repeat x_y_z o `it's`,
+    A {
+        Pad @calculatedFrom(""\n""),
+        zchar[00] i64_ @lengthOf(Z9_) `u8 x,`,
+        u64 u8x @calculatedFrom(""it's""),
+    },
+    match Header as f32a {
+        [1, 0123456789] : int,
+    },// packet A { u8 x, }
+    char[] roots @calculatedFrom("""") `say ""hi""`,
+    @leftPad()
+    a1 chars,
+}
+//	t")).
+Eval vm_compute in ("<<<M1071>>>" ++ check (runes_of_ascii "options { u128
+// " ++ [128512]%N ++ runes_of_ascii " emoji
+//x
+= // 50% %s
+int64
+}
+packet _x{ char[]crc @lengthOf(
+i8i8
+    )
+, stringy
+    ,
+    //x
+    char[ 255 ] x	, @lengthOf( Header)
+repeat
+i8 i64_ , @leftPad( '0'
+) match msg_type as o {//	t
+[
+3, // `tick` ""quote"" 'q'
+3
+// packet A { u8 x, }
+//	t
+, 42, ""`tick`"" ]
+: metadata
+    ,1:
+    uint8x  , } //	t
+,	@lengthOf(
+_x ) uint8// trailing space 
+BodyLength
+// 50% %s
+// @lengthOf(
+`tab	here`
+,
+// 50% %s
+// a // b
+}MetaData A {
+    }
+// @lengthOf(
+// `tick` ""quote"" 'q'
+root packet lengthOf	{ i8
+MetaDataX
+//
+// " ++ [128512]%N ++ runes_of_ascii " emoji
+, match crc as	f32a
+{ ""\n""
+    :
+//
+// c
+leftPad	00: Pad
+    , }, @tag( 0 )	i16 i64_ `doc` , char[
+00 ] T
+, lengthOf @calculatedFrom(
+//
+// c
+""a\""b"" )
+    , @tag(0 ) uint8
+    u
+// c
+// @lengthOf(
+,roots { //
+match
+    As as tag { ""\" ++ [233]%N ++ runes_of_ascii """ :
+    body , 3 : Z9_ //	t
+,
+}
+,// " ++ [128512]%N ++ runes_of_ascii " emoji
+match f32a as f32a { [
+    ""`tick`""  ,7]:
+    i64_ , },
+    zchar[
+    // " ++ [27880; 37322]%N ++ runes_of_ascii "
+    10] float `crlf
+line`
+, //x
+}
+, repeat  pack{ zchar[
+255 ]Pad @lengthOf( stringy ) ,char[ 4294967296	]	x_y_z
+    , }, }")).
+Eval vm_compute in ("<<<M1062>>>" ++ check (runes_of_ascii "packet charz {repeat int8 asx ,
+}packet
+    len
+{
+    @calculatedFrom( ""packet"" ) @lengthOf(
+// " ++ [128512]%N ++ runes_of_ascii " emoji
+// 50% %s
+charz)@lengthOf( tag
+    )
+zchar[
 // `tick` ""quote"" 'q'
 // trailing space 
-) @rightPad
-(' ' )int32
-zchar ,repeat int64 trueish
-,
-@tag(10// packet A { u8 x, }
-)
-T repeatCount ,@leftPad (' ' )float32 MetaDataX
-    `it's`
-    ,
-@rightPad (	' ' ) repeat zchar[ 0123456789 ] A
-    , repeat
-i8 f32a , u8 body
-@calculatedFrom( ""it's""
-)
-,
-    }
-")).
-Eval vm_compute in ("<<<M1618>>>" ++ check (runes_of_ascii "root packet stringy {
-    // trailing space 
-    @calculatedFrom(""" ++ [28040; 24687]%N ++ runes_of_ascii """)
-    repeat Foo {
-        float64 i64_ @lengthOf(Z9_),
-    },
-    repeat lengthOf {
-        falsey {
-            uint16 len,
-        },
-        Packet uint8x `a\`,
-    },
-    @calculatedFrom(""" ++ [128512]%N ++ runes_of_ascii """)
-    string MetaDataX `" ++ [233]%N ++ runes_of_ascii "`,
-}
-
-packet chars {
-    @leftPad('0')
-    i64 trueish @lengthOf(Z9_),
-}")).
-Eval vm_compute in ("<<<M1539>>>" ++ check (runes_of_ascii "
-options  {
-	LittleEndian=
-true
-    ;
-
-StringPrefixLenType=
-u8 ; ArrayPrefixLenType
-	=
-u8 ;
-}  packet
-
-    Ack
-
-{ }
-root
-	packet  Quote
-
+0 ] metadata
+    @calculatedFrom(""" ++ [128512]%N ++ runes_of_ascii """) ,	@calculatedFrom(
+""1""  ) i8i8
+@calculatedFrom( """ ++ [28040; 24687]%N ++ runes_of_ascii """ ) ,
+// packet A { u8 x, }
+//x
+@tag(42 ) char[] pack ,
+// 50% %s
+// packet A { u8 x, }
+zchar[
+    10 ] stringy
+@lengthOf( crc ) , repeat f32
+/// triple
+//x
+o
+`say ""hi""`, char[] falsey /// triple
+, @tag(
+65535
+    //	t
+    ) @lengthOf( o)
+repeat
+    crc zchar ,repeat options1 { u16
+u,  string_
     {
-	Ack
-
-    , InSym94
-{ repeat
-	Ack
+string_ MetaDataX , repeat char[0123456789] uint8x
+, repeat
+uint32
+    T ,}
+, uint16
+packetx, }
+// `tick` ""quote"" 'q'
+// c
 ,
-
-} 
-,  u16
-	msgKind
-	,
-u16  OrderId
-@lengthOf(  Body)
-,match  msgKind as 
-Body
-{
-	[
-
-    110
-    ,
-
-48
-	]
-
-    :
-    Ack, }	,
-}
-")).
-Eval vm_compute in ("<<<M222>>>" ++ check (runes_of_ascii "options	{ // packet A { u8 x, }
-rootA
-= true
-    ; chars
-=	true // packet A { u8 x, }
-}options	{	lengthOf // @lengthOf(
-= 3
-trueish
-= ' '
-    ;
+    } MetaData matchKey {	i8
+leftPad `it's`
+, msg_type	options1 , } MetaData i8i8 {zchar[
+    3 ] // 50% %s
+MetaDataX , char[
+0
     /// triple
-    crc
-// trailing space 
+    ] body// trailing space 
+, char[] x_y_z , Z9_ string_	,zchar[ 0 ] a1
+`{ , }`,
+rootA packetx	,// packet A { u8 x, }
+}")).
+Eval vm_compute in ("<<<M856>>>" ++ check (runes_of_ascii "options{ asx= int64
 // @lengthOf(
-=
-    // trailing space 
-    true  ;
-    rootA =""it's""; chars=
-    int32 ;//x
-}
-")).
-Eval vm_compute in ("<<<M32>>>" ++ check (runes_of_ascii "options	{
+// " ++ [128512]%N ++ runes_of_ascii " emoji
+; f32a =""" ++ [28040; 24687]%N ++ runes_of_ascii """; } options {// trailing space 
+repeatCount
+    = //
+""a	b"" ;}
+options{ Packet  = ""\n"" } root	packet stringy{char[ 007 ] metadata
+,
+i8i8
+@calculatedFrom( ""a\\""
+) ,	@tag( 4294967296 ) match stringy as /// triple
+msg_type  {
+// trailing space 
+/// triple
+[
     // `tick` ""quote"" 'q'
-    Foo
-= zchar[
-    1
-]uint8x =""// no comment"" Pad
-=
-    //
-    char[] ;
-    A
-= 4294967296
-    a1 = ""`tick`"" ; } packet BodyLength  {
-@calculatedFrom(
-""packet"" ) roots `// not a comment`,@tag( 10 ) f32 uint8x/// triple
-`" ++ [28040; 24687; 31867; 22411]%N ++ runes_of_ascii "`
-,	}
-
-")).
-Eval vm_compute in ("<<<M609>>>" ++ check (runes_of_ascii "root packet tag { }  packet MetaDataX{char[007	]
-// c
-/// triple
-asx  @calculatedFrom( ""a\""b""
-) `say ""hi""`// " ++ [27880; 37322]%N ++ runes_of_ascii "
-,  @tag(4294967296 )
-    char[1//x
-] packetx @calculatedFrom(""a\""b""
-    ) ) ,
-// " ++ [128512]%N ++ runes_of_ascii " emoji
+    ""a	b"", 1 ,
+1
+, 42// 50% %s
+, 007 ] :	string_ , """ ++ [28040; 24687]%N ++ runes_of_ascii """ : string_, 42: lengthOf [ ""a\\"" , 65535
+    ] : _x,
+} , zchar // 50% %s
+leftPad
+`a\` ,Foo {u64	falsey // `tick` ""quote"" 'q'
+`" ++ [233]%N ++ runes_of_ascii "`  ,	}
+,@calculatedFrom(
+    // c
+    ""CRC32""
+) @tag(65535 ) i16 leftPad @calculatedFrom(
+""" ++ [28040; 24687]%N ++ runes_of_ascii """  )
 // a // b
-@calculatedFrom(""" ++ [233]%N ++ runes_of_ascii "t" ++ [233]%N ++ runes_of_ascii """  ) repeat pack // " ++ [27880; 37322]%N ++ runes_of_ascii "
+// 50% %s
+, // " ++ [27880; 37322]%N ++ runes_of_ascii "
+asx,
+repeat // `tick` ""quote"" 'q'
+matchKey ,
+    @rightPad// c
+(
+' '  ) int32 metadata `{ , }` ,
+match options1 as Foo
+{ 255 ://
+i64_ , [ ""a\\"" ]
+:lengthOf
+    ,  ""it's"" : int 3 :zchar// packet A { u8 x, }
+, // c
+}, } MetaData
+As { //
+chars calculatedFrom`crlf
+line` ,}")).
+Eval vm_compute in ("<<<M555>>>" ++ check (runes_of_ascii "packet chars{}
+    //x
+    packet u8x {
+} packet	f32a //	t
+{ zchar[ 007 ]
+falsey , @calculatedFrom( ""x y"" )repeat calculatedFrom
+    {string_ @lengthOf(float)
 ,
-    } // c")).
-Eval vm_compute in ("<<<M332>>>" ++ check (runes_of_ascii "// packet A { u8 x, }
-options{
-    T
-=""packet"" ; } MetaData x_y_z
-{
-char roots ,
-    T f32a `{ , }`, } root packet // " ++ [128512]%N ++ runes_of_ascii " emoji
-uint8x
-{ @calculatedFrom( ""// no comment"") repeat As
-{rootA
-@calculatedFrom(
-""" ++ [28040; 24687]%N ++ runes_of_ascii """ ) `{ , }` , u16 zchar`{ , }` ,  char[	7
-]o `" ++ [233]%N ++ runes_of_ascii "` ,
-} ,}
+},
+    @calculatedFrom(	""x y"")  @calculatedFrom( """ ++ [28040; 24687]%N ++ runes_of_ascii """)
+    @rightPad
+( ' ' ) float @lengthOf(
+    pack
+)
+`it's` // " ++ [128512]%N ++ runes_of_ascii " emoji
+, uint8x roots // packet A { u8 x, }
+, @calculatedFrom( ""\n"" ) @lengthOf(	chars  )
+@lengthOf( zchar )repeat As charz
+, u64 BodyLength@lengthOf( BodyLength)//
+, zchar[
+7 ]f32a `100% of %d` ,
+repeat
+Pad { repeat
+Foo{
+    repeat
+u64
+len ``, char
+repeatCount
+    // @lengthOf(
+    `" ++ [28040; 24687; 31867; 22411]%N ++ runes_of_ascii "`
+, // `tick` ""quote"" 'q'
+i32 Packet @lengthOf( string_ ) , } , f32 // `tick` ""quote"" 'q'
+int @calculatedFrom( """ ++ [128512]%N ++ runes_of_ascii """  ) , zchar[10
+    ]i8i8 ,  }//
+,}packet stringy	{ @tag(
+    3 )
+    @lengthOf(Header)
+    //	t
+    @lengthOf( repeatCount
+    )As A , @lengthOf( i8i8
+) zchar[ 0]
+    MetaDataX
+`` ,}
 ")).
-Eval vm_compute in ("<<<M641>>>" ++ check (runes_of_ascii "root packet tag { }  packet MetaDataX{char[007	]
-// c
-/// triple
-asx  @calculatedFrom( ""a\""b""
-) `say ""hi""`// " ++ [27880; 37322]%N ++ runes_of_ascii "
-,  @tag(4294967296 )
-    char[1//x
-] packetx @calculatedFrom(""a\""b""
-    ) ,
+Eval vm_compute in ("<<<M1101>>>" ++ check (runes_of_ascii "root// 50% %s
+packet falsey
+{
+    repeat
+    zchar[  255 ]
+//x
+// packet A { u8 x, }
+calculatedFrom
+, matchKey /// triple
+options1 ,
+    @tag(	0 ) uint64 o ,// a // b
+@tag( 255
+    )
 // " ++ [128512]%N ++ runes_of_ascii " emoji
-// a // b
-@calculatedFrom(""" ++ [233]%N ++ runes_of_ascii "t" ++ [233]%N ++ runes_of_ascii """  ) repeat root // " ++ [27880; 37322]%N ++ runes_of_ascii "
-,
-    } // c")).
-Eval vm_compute in ("<<<M1517>>>" ++ check (runes_of_ascii "
-
-  packet P1 {
-	u8
-	a ,
-} packet
-	P2  {P1 ,  }packet
-    P3{ P2,
-
-P1 , }
-packet P4
-{  repeat
-
-P3,P2 ,
-    } root packet
-	P5 { P4,
-
-P3 
-, P1, 
-u8
-
-K
-
-,
-    match
-K
-
-    as
-
-    Body
+//	t
+repeat i64
+_x, uint16
+    // `tick` ""quote"" 'q'
+    leftPad `// not a comment` , x , @leftPad ('0' )
+repeat Z9_// `tick` ""quote"" 'q'
 {
-
-    4
-
-    : 
-P4
-,	3 :
-    P3  ,  2 
-:
-P2
-
-    ,	1
-:P1  ,
-	} ,}
-")).
-Eval vm_compute in ("<<<M67>>>" ++ check (runes_of_ascii "packet lengthOf {// c
-} root packet
-asx { u32 Z9_
-`say ""hi""` ,
-@tag( 007
-    )match
-    u8x as Logon {
-    [ ""abc""	]: tag,0123456789 : tag,  """ ++ [233]%N ++ runes_of_ascii "t" ++ [233]%N ++ runes_of_ascii """ : int
+    zchar[ 1 ]
+Z9_ @lengthOf( zchar ) `line1
+line2` , repeat float32 u
     ,
-""`tick`"" : options1 , } ,@leftPad
-( )  repeat
-string  tag
-    ,falsey `// not a comment` ,
-}
-")).
-Eval vm_compute in ("<<<M1337>>>" ++ check (runes_of_ascii "// top
-packet // c0a
-  // c0b
-o { repeat
-    // c3
-Logon uint8x // c5
-,
-    // c6
-} options // c8
-{ // c9
+int {
+u {
+    repeat
 asx
-    // c10
-= // c11a
-  // c11b
-zchar[ // c12
-3
-    // c13
-] stringy // c15
-=
-    // c16
-'\x00' // c17
+Z9_ `
+` , } ,
+char[] metadata @lengthOf(len ) `u8 x,` , uint16 //x
+i8i8
+    // a // b
+    , /// triple
+} , } ,@calculatedFrom( ""x y"" ) Logon{
+    // 50% %s
+    char[ 0
+] Header
+, } , @lengthOf(
+    i8i8)
+match uint8x	as
+body
+    { ""it's"" :
+pack , } ,@leftPad
+    (
+    '\x00' // 50% %s
+)char[] Foo `u8 x,` , } packet leftPad { }packet float{ @tag(	3
+) roots @calculatedFrom( ""1"" )
+    , }")).
+Eval vm_compute in ("<<<M4031>>>" ++ check (runes_of_ascii "  // 50% %s
+	packet
+rootA{ 
+@lengthOf(
+u8x	)  Z9_
+    @lengthOf(  charz ), }
+
+    packet 
+    // " ++ [27880; 37322]%N ++ runes_of_ascii "
+	//
+    crc  { @calculatedFrom( 
+    // a // b
+""a\""b"") repeat
+
+    msg_type
+	`{ , }`, @tag(	42  )repeat char[ 
+42
+    ] packetx  `{ , }` ,options1 	 /// triple
+  { 
+    //
+	zchar[
+
+4294967296
+] packetx
+@calculatedFrom(
+""CRC32""
+    // c
+// `tick` ""quote"" 'q'
+  	)
+    ,  // `tick` ""quote"" 'q'
+	u128 
+{ u32
+
+    tag
+    `doc`
+
+    , } , }	,  @leftPad
+
+    (
+
+    '0'
+)falsey {
+
+match  f32a  as T{""a\""b""
+	:
+chars ,	// c
+  ""a\\""
+	:body ,[""\n"" , ""CRC32"" ,
+    0	// c
+	  ,
+10
+, """ ++ [233]%N ++ runes_of_ascii "t" ++ [233]%N ++ runes_of_ascii """ ] 
+// " ++ [128512]%N ++ runes_of_ascii " emoji
+    // " ++ [27880; 37322]%N ++ runes_of_ascii "
+
+:  packetx,	[
+	""a\""b"" /// triple
+]
+:A  0
+:  leftPad , 
+/// triple
+4294967296
+
+:
+    BodyLength
+    ,  }
+
+    ,
+
+    msg_type 
+    // " ++ [27880; 37322]%N ++ runes_of_ascii "
+      //
+
+,}
+	, 
 }
-    // c18
 ")).
-Eval vm_compute in ("<<<M1987>>>" ++ check (runes_of_ascii "  // top
-    root
-	    // c0
+Eval vm_compute in ("<<<M3778>>>" ++ check (runes_of_ascii "MetaData
 
-	packet 	 // c1a
-// c1b
-  P { // c3
+    chars {As
+    Packet	,
+	T
+crc
 
-u16 	 // c4
-a
+,
+    // `tick` ""quote"" 'q'
+    // 50% %s
+char[]
+_x, len  packetx `line1
+line2` 
+,
+	}
 
-, 
-// c6
-u32 Sum 	 // c8
-@calculatedFrom(// c9a
+packet  T{	int64 f32a@lengthOf(x
+    )
+    `say ""hi""`	, 
+    // trailing space 
+	zchar[ 65535  ]  asx
+	`say ""hi""`
+	,
+    i16
 
-// c9b
-  ""CRC32"" // c10
-  ) 	 // c11a
-		// c11b
-, // c12
-  } 
+roots `" ++ [28040; 24687; 31867; 22411]%N ++ runes_of_ascii "`  ,
 
-// c13")).
-Eval vm_compute in ("<<<M1506>>>" ++ check (runes_of_ascii "options {
+@rightPad (	// " ++ [27880; 37322]%N ++ runes_of_ascii "
+  '\x00'  ) 
+string
+    uint8x
+	, rootA @lengthOf( roots 
+
+// a // b
+    )`two words`
+    ,
+
+repeat  u32 u128 ,	@tag(
+    255 
+) 
+    //x
+
+  charz
+pack 
+    // a // b
+  ,
+} 
+    // @lengthOf(
+
+// " ++ [27880; 37322]%N ++ runes_of_ascii "
+  	packet
+
+    Header { 
+
+// " ++ [128512]%N ++ runes_of_ascii " emoji
+//
+@leftPad
+(
+
+'0' 
+)
+	repeat
+	f32a
+metadata 
+`" ++ [233]%N ++ runes_of_ascii "`
+    ,} packet  //
+msg_type{
+    char
+
+A
+`two words`
+    ,
+	@tag( 255	)
+@rightPad
+	( )
+	body
+@calculatedFrom( 
+""\" ++ [233]%N ++ runes_of_ascii """
+	) 	 // 50% %s
+    , 
+}
+	options{	Z9_=
+""packet"" ;}")).
+Eval vm_compute in ("<<<M553>>>" ++ check (runes_of_ascii "root packet packetx
+    {
+    @calculatedFrom(""a\\"" ) repeat
+zchar[1 ]Pad
+    ,repeat trueish
+    , //	t
+@rightPad (
+// `tick` ""quote"" 'q'
+// " ++ [128512]%N ++ runes_of_ascii " emoji
+' ' )// trailing space 
+match u as zchar
+{ 42
+:BodyLength
+,
+[
+0123456789
+,0,
+    ""\n"" ,	""{,}"" , ""x y"",
+    ""CRC32"" ,
+00 ]
+:
+tag// " ++ [27880; 37322]%N ++ runes_of_ascii "
+[ 65535, 65535 , ""{,}"" ,
+""" ++ [28040; 24687]%N ++ runes_of_ascii """
+,//	t
+""CRC32"" ,
+""{,}"" ,
+    ""`tick`"" , ""x y"" ]
+    : x
+    ,""abc"": x , 42	: f32a ""a\""b"" :Logon }, @rightPad  ( '\x00' // `tick` ""quote"" 'q'
+) stringy
+asx , @tag(
+    007 )
+    u64 a1 `crlf
+line` , }
+packet/// triple
+A {@calculatedFrom( ""abc"" )@calculatedFrom(
+    """ ++ [128512]%N ++ runes_of_ascii """
+)repeat
+    char[ 42	]
+Packet
+    //
+    , zchar[ 42
+] i8i8@calculatedFrom(
+    ""{,}"" )  `100% of %d` ,// @lengthOf(
+string int @lengthOf( T
+) , }")).
+Eval vm_compute in ("<<<M4141>>>" ++ check (runes_of_ascii "options {
+    LittleEndian = true;
+    StringPrefixLenType = u8;
+    FixedStringPadFromLeft = false;
     FixedStringPadChar = '0';
 }
-packet Q {
-    zchar[4] z,
-    @rightPad('\x00') char[3] n,
-    char[5] d,
-}
-root packet R {
-    Q,
-    zchar[8] top,
-    repeat zchar[2] zs,
-}
-")).
-Eval vm_compute in ("<<<M341>>>" ++ check (runes_of_ascii "packet A
-    { @rightPad (' '
-    )/// triple
-@calculatedFrom(""" ++ [233]%N ++ runes_of_ascii "t" ++ [233]%N ++ runes_of_ascii """	) int16
-    crc
-`tab	here` // " ++ [128512]%N ++ runes_of_ascii " emoji
-, }  MetaData x
-// `tick` ""quote"" 'q'
-// " ++ [27880; 37322]%N ++ runes_of_ascii "
-{
-}
-// trailing space 
-")).
-Eval vm_compute in ("<<<M464>>>" ++ check (runes_of_ascii "packet
-    // `tick` ""quote"" 'q'
-    crc
-// packet A { u8 x, }
-//	t
-{
-u32 a1 ,
-    // trailing space 
-    roots
-charz //
-`two words`,	}
-    MetaData ` int {
-} /// triple")).
-Eval vm_compute in ("<<<M421>>>" ++ check (runes_of_ascii "packet
-    // `tick` ""quote"" 'q'
-    crc
-// packet A { u8 x, }
-//	t
-{
-u32 a1 ,
-    // trailing space 
-    roots
-`two words` //
-charz,	}
-    MetaData int {
-} /// triple")).
-Eval vm_compute in ("<<<M677>>>" ++ check (runes_of_ascii "root packet len // trailing space 
-{
-// " ++ [27880; 37322]%N ++ runes_of_ascii "
-//	t
-char[10
-] metadata	@lengthOf( o ) `crlf
-line`,
-    @rightPad
-( ' '
-) string
-    Header @calculatedFrom( ""a\\""
-    ) }
-")).
-Eval vm_compute in ("<<<M385>>>" ++ check (runes_of_ascii "
-    // `tick` ""quote"" 'q'
-    crc
-// packet A { u8 x, }
-//	t
-{
-u32 a1 ,
-    // trailing space 
-    roots
-charz //
-`two words`,	}
-    MetaData int {
-} /// triple")).
-Eval vm_compute in ("<<<M453>>>" ++ check (runes_of_ascii "packet
-    // `tick` ""quote"" 'q'
-    crc
-// packet A { u8 x, }
-//	t
-{
-u32 a1 ,
-    // trailing space 
-    roots
-charz //
-`two words`,	}
-    MetaData int")).
-Eval vm_compute in ("<<<M1613>>>" ++ check (runes_of_ascii "
-root 
-    // c
 
-  packet
-    matchKey{zchar[
-3 ]
-	pack
-    @calculatedFrom(
-""a	b""
-	)  `doc`
-, } options {}
-MetaData	A
-{	int8
-
-msg_type,}")).
-Eval vm_compute in ("<<<M1436>>>" ++ check (runes_of_ascii "root packet
-    // c1
-P
-    // c2
-{ // c3a
-  // c3b
-char // c4a
-  // c4b
-c , // c6
-u8 // c7a
-  // c7b
-x , // c9a
-  // c9b
+packet Order {
+    repeat string Px,
+    repeat char[2] Qty,
+    string Tail,
+    char[] OrderId,
+    int8 tag7,
+    int64 Flags,
 }
-    // c10
-")).
-Eval vm_compute in ("<<<M1642>>>" ++ check (runes_of_ascii "root packet matchKey {
-    zchar[3] pack @calculatedFrom(""a	b"") `doc`,
+
+packet Party {
+    Order,
+    f32 lastPx,
+    f32 Note,
+    string x,
+}
+
+packet Logon {
+    uint8 OrderId,
+    string msgKind,
+    int32 lastPx,
+}
+
+packet Ack {
+}
+
+packet Cancel {
+    repeat char[5] Note,
+    repeat i32 x,
+    Ack,
+    repeat InF16 {
+        repeat i8 sym,
+    },
+    char[1] Acct,
+}
+
+root packet Fill {
+    i32 price,
+    @leftPad(' ')
+    char[8] msgKind,
+    char[] Acct,
+    char[] Note,
+    uint64 venue,
+}")).
+Eval vm_compute in ("<<<M3577>>>" ++ check (runes_of_ascii "options {
+    matchKey = ' ';
+}
+
+root packet options1 {
+    @tag(1)
+    char[] repeatCount `tab	here`,
+    @lengthOf(rootA)
+    zchar[42] o,
+    match Header as i64_ {
+        [""x y"", ""1"", 3] : int,
+        """ ++ [128512]%N ++ runes_of_ascii """ : options1,
+        [""abc""] : body,
+        65535 : roots,
+        // " ++ [128512]%N ++ runes_of_ascii " emoji
+    },
+    msg_type charz,
+    string f32a `// not a comment`,
+    repeat int,
+    char[0] _x `two words`,
+    i16 metadata @lengthOf(metadata) `two words`,
+}
+
+MetaData uint8x {
+    len stringy `{ , }`,
 }
 
 options {
+    u128 = 00;// `tick` ""quote"" 'q'
+    Pad = char[7];
+    calculatedFrom = """ ++ [28040; 24687]%N ++ runes_of_ascii """
+    crc = char[];
+    Z9_ = '0';
 }
 
+packet rootA {
+    // a // b
+    repeat x_y_z,
+}")).
+Eval vm_compute in ("<<<M3884>>>" ++ check (runes_of_ascii "MetaData float {
+    string Packet,
+}
+
+options {
+    asx = ""\n""
+}
+
+options {
+    repeatCount = """";
+    _x = zchar[007];
+    uint8x = u64
+}
+
+packet options1 {
+    i8 Pad,
+    uint32 roots @calculatedFrom(""// no comment"") `doc`,
+    char[] rootA,
+    match crc as u {
+        0 : chars,
+        42 : packetx,
+        // @lengthOf(
+        // trailing space 
+    },
+    @tag(0)
+    int8 u128,
+    string pack `u8 x,`,
+    Header @calculatedFrom(""1""),
+    @tag(10)
+    u,
+    i16 u128,
+    // trailing space 
+    @calculatedFrom(""\n"")
+    //	t
+    @rightPad('0')
+    repeat zchar msg_type `{ , }`,
+}
+
+MetaData i8i8 {
+    u8 leftPad `crlf
+        line`,
+}")).
+Eval vm_compute in ("<<<M28>>>" ++ check (runes_of_ascii "options {
+    i8i8 = ""1"" u=
+    ""a	b"" //x
+;a1=zchar[ 00
+    // @lengthOf(
+    ] ;
+    // c
+    o= ""a	b""
+;  float
+= char[]// a // b
+;
+} root packet chars{
+}packet body // `tick` ""quote"" 'q'
+{ repeat u8x {int16 zchar ,char[
+1
+] o `" ++ [233]%N ++ runes_of_ascii "`	,
+    },}
+    packet  BodyLength {
+    // c
+    @rightPad
+    ('0' )u16 u8x@calculatedFrom( ""// no comment"" ),
+    @tag(
+1 )
+// a // b
+// " ++ [128512]%N ++ runes_of_ascii " emoji
+match i8i8 as
+u128 { 007 : len ,	""" ++ [128512]%N ++ runes_of_ascii """: u128
+    ,
+    } , repeat
+    repeatCount// " ++ [128512]%N ++ runes_of_ascii " emoji
+`u8 x,` , @calculatedFrom( // c
+""x y""
+)falsey {
+char[ 255]  crc , Logon
+`two words`  ,
+roots options1
+    , }	,
+} root packet
+calculatedFrom
+    { }
+")).
+Eval vm_compute in ("<<<M3833>>>" ++ check (runes_of_ascii "MetaData asx { char[
+	00
+]
+
+u8x	, 
+trueish tag `it's`,
+} 
+root
+packet	i64_ {
+	repeat
+
+repeatCount	// trailing space 
+	msg_type	, char[
+
+7
+
+] asx 
+
+//x
+
+	/// triple
+,  }options{  BodyLength =
+	true
+
+;
+	} packet
+x{  @tag(	1 )
+
+    @rightPad(
+	'\x00')	// trailing space 
+    @lengthOf(
+f32a
+    )int16  pack`
+` ,	repeat
+
+    char[]
+
+    options1,	// c
+	string 
+options1
+    @lengthOf(
+calculatedFrom
+	) `" ++ [233]%N ++ runes_of_ascii "`,	// @lengthOf(
+	@tag( 1
+
+    )
+Packet	// packet A { u8 x, }
+
+	string_	,As {
+
+matchKey	chars  ,}
+
+    ,
+
+repeat
+string	crc 
+`// not a comment` ,
+repeat
+    T
+
+    ,} 
+      //x
+")).
+Eval vm_compute in ("<<<M196>>>" ++ check (runes_of_ascii "packet  u128  {
+repeat
+string float `100% of %d`
+    , @tag( 1
+) @tag( // " ++ [27880; 37322]%N ++ runes_of_ascii "
+007	)
+    match pack as i8i8
+{  ""CRC32"" //	t
+:
+trueish 0123456789	: _x ,[00 ,""" ++ [128512]%N ++ runes_of_ascii """, /// triple
+255 , 255
+]	: // trailing space 
+uint8x
+    ,[  ""`tick`""	] :trueish , 7  :
+    i8i8 } , Logon
+, @calculatedFrom(""1"" // packet A { u8 x, }
+) zchar[ 0123456789 ]
+/// triple
+// trailing space 
+trueish @calculatedFrom(""1""// " ++ [128512]%N ++ runes_of_ascii " emoji
+) `u8 x,`	, @leftPad ( )@tag(	7) char[
+// trailing space 
+//	t
+0123456789] BodyLength
+//x
+// 50% %s
+@calculatedFrom( ""abc"" /// triple
+)
+    ,	T/// triple
+a1 ,}packet
+Packet {  }
+")).
+Eval vm_compute in ("<<<M1319>>>" ++ check (runes_of_ascii "  packet // `tick` ""quote"" 'q'
+i64_ { // " ++ [128512]%N ++ runes_of_ascii " emoji
+@tag(  255
+) uint16 u128 , } packet options1
+    {
+match
+//x
+// trailing space 
+Logon as Z9_ { [ 1 , 1 ] /// triple
+:
+    crc""a	b"" :
+roots ,""CRC32""//
+: MetaDataX , }, @lengthOf( uint8x // @lengthOf(
+)// `tick` ""quote"" 'q'
+@leftPad ( '0'
+    ) crc @calculatedFrom( ""it's"" ) , zchar[
 // c
-MetaData A {
-    int8 msg_type,
-}")).
-Eval vm_compute in ("<<<M1235>>>" ++ check (runes_of_ascii "root packet matchKey { zchar[ 3 ] // c
-pack @calculatedFrom( ""a	b"" ) `doc` , } options { } MetaData A { int8 msg_type , }")).
-Eval vm_compute in ("<<<M1267>>>" ++ check (runes_of_ascii "root packet matchKey { zchar[ 3 ] pack @calculatedFrom( ""a	b"" ) `doc` , } options { } MetaData A { int8 msg_type , // c
-}")).
-Eval vm_compute in ("<<<M1802>>>" ++ check (runes_of_ascii "
-packet	A
+/// triple
+4294967296 ] leftPad `two words` ,
+    repeat falsey ,u8 o @calculatedFrom( ""x y"" )
+    , @tag( 3
+)
+    @calculatedFrom( ""CRC32"" ) @lengthOf( lengthOf
+)
+    repeat string
+uint8x ,	char[] chars
+    , }")).
+Eval vm_compute in ("<<<M4079>>>" ++ check (runes_of_ascii "
+options	{u8x=
+""x y""
 
-{ match k  as
+    ;
 
-    n
+    }
+
+options { crc  =
+
+false 
+;
+	} root
+packet
+a1
+
+{  repeat
+
+zchar[0
+
+]
+    metadata
+
+,
+	} packet Pad
 
 {
-[ 1  ,22,
+pack {
 
-007 ,	4, 
-5 , 66
+    char[ 4294967296
+]	tag
+,  i64	asx //x
+	@lengthOf(
+Z9_ ) `" ++ [233]%N ++ runes_of_ascii "` ,
+
+    }
+    , @lengthOf(  // @lengthOf(
+  asx  // packet A { u8 x, }
+  ) zchar[3  // packet A { u8 x, }
+
+	] pack
+@calculatedFrom(
+
+    ""x y""  
+      // trailing space 
+  	)  ,
+    @calculatedFrom(
+	""packet""
+	)
+    repeat
+falsey
+
+    `// not a comment`	,
+
+}	options { 
+metadata
+
+= false zchar
+='\x00'  }
+")).
+Eval vm_compute in ("<<<M117>>>" ++ check (runes_of_ascii "options
+{Packet =char[ 7
+/// triple
+//
+] ;
+a1
+=""it's"" ;}MetaData charz {
+    As calculatedFrom , uint8 float
+    `{ , }`
+, charz msg_type
+    , }
+    MetaData i8i8
+{char[]// " ++ [128512]%N ++ runes_of_ascii " emoji
+x_y_z
+`say ""hi""`,
+}
+packet i64_	{ @tag(
+0123456789 )
+x_y_z@calculatedFrom( ""it's""	) ,@rightPad
+(  ' '	) @tag(007 ) leftPad {
+    // @lengthOf(
+    zchar[ 00 ] Pad, }	,int32
+    _x @lengthOf(BodyLength )
+,@calculatedFrom(""{,}"" )
+    float32 Foo ,rootA
+@lengthOf( charz) , f64 _x@calculatedFrom( ""{,}""  )	`a\`
+    , }")).
+Eval vm_compute in ("<<<M3911>>>" ++ check (runes_of_ascii "// a // b
+MetaData len {
+    char[65535] options1,
+}
+
+root packet f32a {
+    @leftPad()
+    char[255] u128,
+    zchar[42] tag @lengthOf(T) `a\`,
+    int16 Logon `{ , }`,
+    int16 rootA,
+    @tag(00)
+    char[00] packetx @lengthOf(f32a) `{ , }`,
+    u8 Logon `it's`,
+    // a // b
+    char[] x_y_z @lengthOf(len),
+    @lengthOf(Pad)
+    // " ++ [128512]%N ++ runes_of_ascii " emoji
+    char[] packetx,
+}
+
+// " ++ [128512]%N ++ runes_of_ascii " emoji
+MetaData repeatCount {
+    zchar[1] stringy,
+    Packet rootA,
+    A Z9_,
+    string u128,// a // b
+}")).
+Eval vm_compute in ("<<<M3885>>>" ++ check (runes_of_ascii "root
+packet 	 //x
+
+	pack
+
+    {
+    match
+matchKey 	 //	t
+    as int 	 // @lengthOf(
+
+  {00
+
+    : metadata , 
+""a\\""
+:o
+
+,""// no comment""
+
+:  // `tick` ""quote"" 'q'
+	x 
+,[""packet""
+] :
+A
+
+    ,
+
+    [ ""\n"" , 0123456789 , 00
 ,
-7 
-,8 , 
-9 ,10
-	] :
-B
+	""// no comment"" , 007
+,255 , 1
+    , // c
+    0
+	]
+        // a // b
+:
+metadata,  [ 00 ] :Pad , 
+} ,
 
-    ,	2
+    }// @lengthOf(
+MetaData tag
 
-: C },
+{ 
+uint64
+
+    i64_
+
+    ``, } packet
+BodyLength
+
+    {
+repeat	u32
+
+u128,
+	}
+")).
+Eval vm_compute in ("<<<M3752>>>" ++ check (runes_of_ascii "  packet
+asx{
+    @calculatedFrom(""" ++ [28040; 24687]%N ++ runes_of_ascii """
+)u8
+Packet@lengthOf(
+
+u128 
+)/// triple
+
+	,i64  lengthOf@calculatedFrom( ""it's""	)
+
+    , @leftPad	// packet A { u8 x, }
+	  ( )  Foo
+	@lengthOf( msg_type 
+) 
+,
+	@lengthOf(  leftPad 	 // c
+
+)tag`" ++ [233]%N ++ runes_of_ascii "`
+
+,
+	} 
+packet
+    A{  zchar[  255 
+]
+    len@lengthOf(
+matchKey
+
+) 
+,	@calculatedFrom( ""CRC32"" )
+Foo
+    {int8  /// triple
+		asx	@lengthOf(
+metadata )
+`u8 x,` ,}
+,}MetaData len
+
+{	// @lengthOf(
+	}
+")).
+Eval vm_compute in ("<<<M4449>>>" ++ check (runes_of_ascii "  options {
+uint8x =
+'\x00' ;a1
+=
+	zchar[
+    4294967296
+
+];
+Packet
+= 007  ; 
+} MetaData
+rootA{  roots
+
+repeatCount
+	`two words`
+
+    , 
+string
+
+    f32a
+
+    `u8 x,`
+,
+
+char[ 0
+	]rootA	// a // b
+
+`doc`, o
+stringy `tab	here` ,
+}
+
+MetaData
+
+    u128
+
+    {int16 
+asx
+`a\`  ,// " ++ [27880; 37322]%N ++ runes_of_ascii "
+
+string  f32a
+
+    , 
+      // " ++ [27880; 37322]%N ++ runes_of_ascii "
+    // 50% %s
+  i16
+	o 
+`line1
+line2`
+,
+
+u64  Z9_
+`u8 x,`
+    , 
+  //x
+	// 50% %s
     }
 ")).
-Eval vm_compute in ("<<<M1780>>>" ++ check (runes_of_ascii "MetaData 
-// c
-  float  { float64
-charz  `
-`  ,
-	} root
-packet	chars  {
-
-    @rightPad (	'0'
-)Foo ,
-    } ")).
-Eval vm_compute in ("<<<M903>>>" ++ check (runes_of_ascii "packet A {
-  match k as n {
-    [1, ""bb"", 007, ""d"", 5, ""f"", 7, ""h"", 9, ""j"", 11, ""l""] : B,
-    2 : C
-  },
-}")).
-Eval vm_compute in ("<<<M862>>>" ++ check (runes_of_ascii "packet A {
-  match k as n {
-    [""a"", ""bb"", ""c c"", ""d"", ""e"", ""f"", ""g"", ""h"", ""i""] : B,
-    2 : C
-  },
-}")).
-Eval vm_compute in ("<<<M1446>>>" ++ check (runes_of_ascii "  packet
-    Inner
-
-    {	u8
-
-    a
-
-    ,  }	root packet
-
-P
-{ Inner	ref_obj ,
-	u8
-
-x
-, }
+Eval vm_compute in ("<<<M179>>>" ++ check (runes_of_ascii "packet Foo
+    // packet A { u8 x, }
+    { @lengthOf( u128// " ++ [128512]%N ++ runes_of_ascii " emoji
+) // c
+pack
+{
+    match x as string_
+    // " ++ [128512]%N ++ runes_of_ascii " emoji
+    {""" ++ [28040; 24687]%N ++ runes_of_ascii """
+: BodyLength ,} , }// a // b
+,char[ 4294967296 ] i64_ `" ++ [233]%N ++ runes_of_ascii "` ,@lengthOf(u8x
+    ) repeat float64 f32a ,
+// a // b
+// packet A { u8 x, }
+} // 50% %s
+options { MetaDataX=  ""a\\""
+pack =// packet A { u8 x, }
+false;	options1
+    // a // b
+    = char[]  Pad= '0'
+    ;
+u8x =false}
 ")).
-Eval vm_compute in ("<<<M317>>>" ++ check (runes_of_ascii "packet
-crc { @lengthOf( falsey )Packet /// triple
-`crlf
-line`
+Eval vm_compute in ("<<<M1379>>>" ++ check (runes_of_ascii "options  {
+x = zchar[ 00 ]matchKey
+    = //	t
+i8
+; o = char[] } packet	u {
+    // c
+    metadata @lengthOf(
+zchar ), char[0123456789 //
+] crc @calculatedFrom( ""a\""b"" ),
+packetx charz, }packet  trueish { } options {
+    Z9_=
+// @lengthOf(
+// `tick` ""quote"" 'q'
+""" ++ [128512]%N ++ runes_of_ascii """
     // trailing space 
+    ; // " ++ [27880; 37322]%N ++ runes_of_ascii "
+roots
+=' ';
+    Header
+=
+4294967296 ;
+falsey =  f64 } options
+{ MetaDataX=
+false}
+")).
+Eval vm_compute in ("<<<M1063>>>" ++ check (runes_of_ascii "packet i64_ {zchar[ //	t
+7
+] chars
+,  @rightPad
+    (
+    )pack
+,
+@lengthOf(//
+roots )// c
+@tag( 65535) Header zchar ,
+    } packet	matchKey
+    { @calculatedFrom(	""\n"" ) @lengthOf( x_y_z)
+@lengthOf( // 50% %s
+calculatedFrom)
+zchar[
+//
+/// triple
+0 ] MetaDataX , } options { options1 = // a // b
+' '
+;	Pad =
+char
+// @lengthOf(
+//
+} packet
+    /// triple
+    A { } //")).
+Eval vm_compute in ("<<<M3970>>>" ++ check (runes_of_ascii "
+root
+	packet
+asx 
+// `tick` ""quote"" 'q'
+    	// `tick` ""quote"" 'q'
+  {
+}root
+    // `tick` ""quote"" 'q'
+	packet
+
+MetaDataX 	 // " ++ [128512]%N ++ runes_of_ascii " emoji
+		{
+    }
+
+packet
+    charz {
+
+    int32
+
+o	@calculatedFrom( ""CRC32"")  ,
+
+}
+options 
+{	}
+    packet
+	crc
+    { 
+@lengthOf(
+	leftPad
+)
+	@tag(65535 
+)
+@calculatedFrom( ""a\""b""
+	)	string
+	Header
+
+`" ++ [28040; 24687; 31867; 22411]%N ++ runes_of_ascii "`
+    ,
+} ")).
+Eval vm_compute in ("<<<M706>>>" ++ check (runes_of_ascii "options{
+u8x =
+int8 ;
+    Pad =int16; falsey
+    = true ; }  root packet trueish {@lengthOf(pack
+)
+int64
+u @calculatedFrom(
+    //
+    ""CRC32""	)
+    , }
+MetaData // c
+chars { msg_type asx //
+`{ , }`, roots Logon`" ++ [233]%N ++ runes_of_ascii "` ,	char[] string_`doc`  ,roots  pack `
+`
+    ,
+// packet A { u8 x, }
+// packet A { u8 x, }
+Packet crc ,
+Foo i64_ , }")).
+Eval vm_compute in ("<<<M3430>>>" ++ check (runes_of_ascii "// top
+packet // c0a
+  // c0b
+FooBar // c1a
+  // c1b
+{
+    // c2
+u8 // c3
+a // c4
+, // c5a
+  // c5b
+} // c6a
+  // c6b
+packet // c7a
+  // c7b
+foo_bar // c8a
+  // c8b
+{ // c9a
+  // c9b
+u16
+    // c10
+b
+    // c11
+, // c12
+} root
+    // c14
+packet // c15
+R
+    // c16
+{ // c17
+FooBar , foo_bar
+    // c20
+, // c21
+}
+    // c22
+")).
+Eval vm_compute in ("<<<M860>>>" ++ check (runes_of_ascii "packet x_y_z { @tag( 7 ) zchar[ 255 ]
+calculatedFrom
+    , zchar[  1
+    ]	Header
+    `u8 x,`, @lengthOf(falsey)u16 u8x,@lengthOf(
+    chars ) charz @calculatedFrom(""`tick`"" ) `" ++ [233]%N ++ runes_of_ascii "`,
+    } MetaData
+    roots{ packetx
+msg_type `" ++ [233]%N ++ runes_of_ascii "` // `tick` ""quote"" 'q'
+,
+    _x stringy
+    // trailing space 
+    ,	zchar uint8x,}")).
+Eval vm_compute in ("<<<M660>>>" ++ check (runes_of_ascii "packet rootA { @leftPad
+(
+)@calculatedFrom(""" ++ [28040; 24687]%N ++ runes_of_ascii """)
+@lengthOf(T) rootA
+, @tag( 10	)
+// `tick` ""quote"" 'q'
+// packet A { u8 x, }
+f64 i64_
+@lengthOf( uint8x// packet A { u8 x, }
+) , } packet
+chars { repeat int16
+MetaDataX , @rightPad ( //
+' '
+    ) int16// a // b
+crc @lengthOf( leftPad
+    ) , } 	 ")).
+Eval vm_compute in ("<<<M1326>>>" ++ check (runes_of_ascii "
+packet body // " ++ [128512]%N ++ runes_of_ascii " emoji
+{ char[ 10 ]body , @lengthOf(  rootA ) @lengthOf( crc ) @rightPad
+    // @lengthOf(
+    (	' ') match uint8x as asx {
+""x y"" :
+    //	t
+    u8x
+    , ""CRC32"" : //	t
+float, 0123456789 : // `tick` ""quote"" 'q'
+int 0: Foo,
+3 :  asx
+, // packet A { u8 x, }
+} , }
+")).
+Eval vm_compute in ("<<<M1579>>>" ++ check (runes_of_ascii "// 50% %s
+packet	a1
+    { zchar[
+// a // b
+// 50% %s
+007]
+T `it's`
+    ,@rightPad
+    // a // b
+    (
+'\x00'@lengthOf(
+    o repeatCount , }  packet Logon {  }packet	Logon //x
+{ repeat // " ++ [128512]%N ++ runes_of_ascii " emoji
+uint16 u128
+    //
+    `a\`,
+falsey
+@calculatedFrom(""packet"" ) ,
+    } 	 ")).
+Eval vm_compute in ("<<<M3811>>>" ++ check (runes_of_ascii "options {
+    LittleEndian = true;
+    StringPrefixLenType = u16;
+    ArrayPrefixLenType = u8;
+}
+
+packet Reject {
+    repeat char[1] price,
+    repeat InFlags60 {
+        u8 pad0,
+    },
+    u8 Qty,
+}
+
+root packet Heartbeat {
+    repeat Reject,
+    repeat string sym,
+}")).
+Eval vm_compute in ("<<<M1567>>>" ++ check (runes_of_ascii "// 50% %s
+packet	a1
+    { zchar[
+// a // b
+// 50% %s
+007]
+T `it's`
+    ,@rightPad
+    // a // b
+    ( (
+'\x00')
+    o repeatCount , }  packet Logon {  }packet	Logon //x
+{ repeat // " ++ [128512]%N ++ runes_of_ascii " emoji
+uint16 u128
+    //
+    `a\`,
+falsey
+@calculatedFrom(""packet"" ) ,
+    } 	 ")).
+Eval vm_compute in ("<<<M3426>>>" ++ check (runes_of_ascii "packet MDSnapshotZZ {
+    u8 a,
+}
+packet OrderACK {
+    u16 b,
+}
+packet HTTPServerInfo {
+    string s,
+}
+root packet FIXMsg {
+    u8 KType,
+    MDSnapshotZZ,
+    repeat OrderACK,
+    match KType as Body {
+        1 : HTTPServerInfo,
+        2 : OrderACK,
+    },
+}
+")).
+Eval vm_compute in ("<<<M1673>>>" ++ check (runes_of_ascii "// 50% %s
+packet	a1
+    { zchar[
+// a // b
+// 50% %s
+007]
+T `it's`
+    ,@rightPad
+    // a // b
+    (
+'\x00')
+    o repeatCount , }  packet Logon {  }packet	Logon //x
+{ repeat // " ++ [128512]%N ++ runes_of_ascii " emoji
+uint16 u128
+    //
+    `a\`,
+falsey
+@calculatedFrom() ""packet"" ,
+    } 	 ")).
+Eval vm_compute in ("<<<M1604>>>" ++ check (runes_of_ascii "// 50% %s
+packet	a1
+    { zchar[
+// a // b
+// 50% %s
+007]
+T `it's`
+    ,@rightPad
+    // a // b
+    (
+'\x00')
+    o repeatCount , }  u64 Logon {  }packet	Logon //x
+{ repeat // " ++ [128512]%N ++ runes_of_ascii " emoji
+uint16 u128
+    //
+    `a\`,
+falsey
+@calculatedFrom(""packet"" ) ,
+    } 	 ")).
+Eval vm_compute in ("<<<M1661>>>" ++ check (runes_of_ascii "// 50% %s
+packet	a1
+    { zchar[
+// a // b
+// 50% %s
+007]
+T `it's`
+    ,@rightPad
+    // a // b
+    (
+'\x00')
+    o repeatCount , }  packet Logon {  }packet	Logon //x
+{ repeat // " ++ [128512]%N ++ runes_of_ascii " emoji
+uint16 u128
+    //
+    `a\`,
+
+@calculatedFrom(""packet"" ) ,
+    } 	 ")).
+Eval vm_compute in ("<<<M1669>>>" ++ check (runes_of_ascii "// 50% %s
+packet	a1
+    { zchar[
+// a // b
+// 50% %s
+007]
+T `it's`
+    ,@rightPad
+    // a // b
+    (
+'\x00')
+    o repeatCount , }  packet Logon {  }packet	Logon //x
+{ repeat // " ++ [128512]%N ++ runes_of_ascii " emoji
+uint16 u128
+    //
+    `a\`,
+falsey
+]""packet"" ) ,
+    } 	 ")).
+Eval vm_compute in ("<<<M177>>>" ++ check (runes_of_ascii "options {	metadata =false
+// packet A { u8 x, }
+// 50% %s
+options1 = f64 a1	= char[]
+    options1 =  zchar[	7 ]
+// @lengthOf(
+// trailing space 
+; } options{ string_ =7
+    // `tick` ""quote"" 'q'
+    ;
+MetaDataX =
+    ""a	b""
+int=
+false ; }")).
+Eval vm_compute in ("<<<M881>>>" ++ check (runes_of_ascii "root packet crc { char[//x
+0123456789 ] _x @lengthOf(//
+T )`a\`
+,i16 msg_type , @leftPad
+    (
+'0'// trailing space 
+)
+    repeat
+char[] u	,
+    @lengthOf(//
+repeatCount) int8 f32a ,
+} root packet metadata{
+    } // @lengthOf(")).
+Eval vm_compute in ("<<<M410>>>" ++ check (runes_of_ascii "  MetaData zchar {	char[] rootA
+    , }
+MetaData roots { int16 // @lengthOf(
+Logon	,  u32 matchKey //	t
+`say ""hi""` ,
+char[ 00
+    ]
+f32a
+`line1
+line2` ,// trailing space 
+packetx matchKey	, } MetaData u{ string len , }")).
+Eval vm_compute in ("<<<M1383>>>" ++ check (runes_of_ascii "MetaData Logon {
+    len
+    u, uint32 BodyLength// c
+,
+charz lengthOf`it's`, uint32 a1 `crlf
+line`
+,
+Logon // trailing space 
+pack// c
+`// not a comment`
+    ,msg_type A // `tick` ""quote"" 'q'
+`
+`
     ,
 }
 ")).
-Eval vm_compute in ("<<<M1179>>>" ++ check (runes_of_ascii "
+Eval vm_compute in ("<<<M119>>>" ++ check (runes_of_ascii "
+packet Pad{ @lengthOf(
+    msg_type)match u8x as u {
+10: msg_type
+// @lengthOf(
 // c
-MetaData float { float64 charz `
-` , } root packet chars { @rightPad ( '0' ) Foo , }")).
-Eval vm_compute in ("<<<M1194>>>" ++ check (runes_of_ascii "MetaData float { float64 charz `
-` , } // c
-root packet chars { @rightPad ( '0' ) Foo , }")).
-Eval vm_compute in ("<<<M1405>>>" ++ check (runes_of_ascii "packet chars { } packet
-// c
-MetaDataX { @tag( 42 ) i16 string_ , repeat x `say ""hi""` , }")).
-Eval vm_compute in ("<<<M874>>>" ++ check (runes_of_ascii "packet A {
-  match k as n {
-    [1, 22, 007, 4, 5, 66, 7, 8, 9, 10] : B
-    2 : C
-  },
-}")).
-Eval vm_compute in ("<<<M1135>>>" ++ check (runes_of_ascii "packet metadata { Logon { A
-// c
-`" ++ [28040; 24687; 31867; 22411]%N ++ runes_of_ascii "` , tag o , } , zchar len `// not a comment` , }")).
-Eval vm_compute in ("<<<M1340>>>" ++ check (runes_of_ascii "packet // c
-o { repeat Logon uint8x , } options { asx = zchar[ 3 ] stringy = '\x00' }")).
-Eval vm_compute in ("<<<M1372>>>" ++ check (runes_of_ascii "packet o { repeat Logon uint8x , } options { asx = zchar[ 3 ] stringy = // c
-'\x00' }")).
-Eval vm_compute in ("<<<M827>>>" ++ check (runes_of_ascii "packet A {
-  match k as n {
-    [""a"", 22, ""c c"", 4, ""e"", 66] : B,
-    2 : C
-  },
-}")).
-Eval vm_compute in ("<<<M1499>>>" ++ check (runes_of_ascii "packet order_item
-	{ u8 
-a ,
-} 
-root  packet
-	new_order 
-{ order_item
-
-, 
-u8
-
-x,}
-")).
-Eval vm_compute in ("<<<M418>>>" ++ check (runes_of_ascii "packet
-    // `tick` ""quote"" 'q'
-    crc
-// packet A { u8 x, }
+255 : roots
+    , ""CRC32""
+:
+// " ++ [128512]%N ++ runes_of_ascii " emoji
+// `tick` ""quote"" 'q'
+BodyLength [ 1, ""a\""b""  ] : trueish ,} ,
 //	t
-{
-u32 a1 ,")).
-Eval vm_compute in ("<<<M1930>>>" ++ check (runes_of_ascii "packet i8i8 {
-    char[1] f32a @calculatedFrom(""\n""),
-    repeat charz,
+//	t
 }")).
-Eval vm_compute in ("<<<M542>>>" ++ check (runes_of_ascii "root packet tag { }  packet MetaDataX{char[007	]
-// c
-/// triple
-asx")).
-Eval vm_compute in ("<<<M833>>>" ++ check (runes_of_ascii "packet A { Inner { match k as n { [1,22,007,4,5,66] : B, }, }, }")).
-Eval vm_compute in ("<<<M807>>>" ++ check (runes_of_ascii "packet A { Inner { match k as n { [1,22,007,4] : B, }, }, }")).
-Eval vm_compute in ("<<<M1293>>>" ++ check (runes_of_ascii "packet x { @rightPad ( ) repeat roots Logon
-// c
-`doc` , }")).
-Eval vm_compute in ("<<<M1857>>>" ++ check (runes_of_ascii "packet A {
-    u8 x `a
-            b
-          c`,
-}")).
-Eval vm_compute in ("<<<M532>>>" ++ check (runes_of_ascii "root packet tag { }  packet MetaDataX{char[007")).
-Eval vm_compute in ("<<<M928>>>" ++ check (runes_of_ascii "MetaData M {
-    u8 x `
-`,
-    T t `
-`,
-}")).
-Eval vm_compute in ("<<<M1640>>>" ++ check (runes_of_ascii "packet
-    A
-{
-
-u8
-x 
-`d" ++ [8232]%N ++ runes_of_ascii "`, // c" ++ [8232]%N ++ runes_of_ascii "
+Eval vm_compute in ("<<<M3847>>>" ++ check (runes_of_ascii "//x
+root packet int {
+    //	t
 }
 
-")).
-Eval vm_compute in ("<<<M941>>>" ++ check (runes_of_ascii "root packet A {
-    u8 x `a
+MetaData options1 {
+    zchar[3] packetx,
+    zchar[007] repeatCount `a\`,
+    string metadata ``,
+    Z9_ zchar `" ++ [233]%N ++ runes_of_ascii "`,
+    uint64 Pad,
+}
+// `tick` ""quote"" 'q'")).
+Eval vm_compute in ("<<<M215>>>" ++ check (runes_of_ascii "MetaData
+float { uint8 Foo
+    , zchar[1 ] asx `{ , }`  ,a1 lengthOf , falsey pack `u8 x,` ,
+// " ++ [27880; 37322]%N ++ runes_of_ascii "
+// packet A { u8 x, }
+metadata Packet ,falsey // packet A { u8 x, }
+pack ,
+    }")).
+Eval vm_compute in ("<<<M3646>>>" ++ check (runes_of_ascii "// top
+options {
+    // c1
+    LittleEndian = true;
+    // c5
+}
 
-b`,
+// c6
+root packet P {
+    // c10
+    u16 a,
+    // c13
+    u32 Sum @calculatedFrom(""CRC32""),// c19
+}
+// c20")).
+Eval vm_compute in ("<<<M3803>>>" ++ check (runes_of_ascii "packet charz {
+    @tag(7)
+    @tag(4294967296)
+    @lengthOf(trueish)
+    repeat uint64 metadata `line1
+        line2`,
+}
+
+options {
+    T = true;
+}
+
+packet tag {
 }")).
-Eval vm_compute in ("<<<M978>>>" ++ check (runes_of_ascii "packet A {
- u8 x `d" ++ [12288]%N ++ runes_of_ascii "`, // c" ++ [12288]%N ++ runes_of_ascii "
-}")).
-Eval vm_compute in ("<<<M118>>>" ++ check (runes_of_ascii "options{
-i64_ = ""`tick`""}
+Eval vm_compute in ("<<<M3512>>>" ++ check (runes_of_ascii "
+packet A 
+{
+	match k
+
+as n
+	{
+    [
+    ""a"" 
+, 22
+    ,
+
+""c c"", 
+4,
+
+    ""e""
+
+, 66,""g"",
+	8
+,
+
+    ""i""  , 10 ]  :
+
+    B
+    ,	2
+	:
+    C
+
+    } ,
+	}
 
 ")).
-Eval vm_compute in ("<<<M1079>>>" ++ check (runes_of_ascii "packet A { // a
- u8 x, }")).
-Eval vm_compute in ("<<<M1385>>>" ++ check (runes_of_ascii "MetaData o // c
-{ }")).
-Eval vm_compute in ("<<<M1027>>>" ++ check (runes_of_ascii "// c" ++ [11]%N ++ runes_of_ascii "
-packet A {
+Eval vm_compute in ("<<<M1625>>>" ++ check (runes_of_ascii "// 50% %s
+packet	a1
+    { zchar[
+// a // b
+// 50% %s
+007]
+T `it's`
+    ,@rightPad
+    // a // b
+    (
+'\x00')
+    o repeatCount , }  packet Logon {  }")).
+Eval vm_compute in ("<<<M2183>>>" ++ check (runes_of_ascii "MetaData BodyLength
+{ int8 Foo
+, string
+    MetaDataX , float zchar ,pack options1
+,asx string_, }
+packet u8x {Foo@lengthOf(charz )
+`" ++ [28040; 24687; 31867; 22411]%N ++ runes_of_ascii "`packet  }
+")).
+Eval vm_compute in ("<<<M2151>>>" ++ check (runes_of_ascii "MetaData BodyLength
+{ int8 Foo
+, string
+    MetaDataX , float zchar ,pack options1
+,asx string_, }
+packet u8x { {Foo@lengthOf(charz )
+`" ++ [28040; 24687; 31867; 22411]%N ++ runes_of_ascii "`,  }
+")).
+Eval vm_compute in ("<<<M2347>>>" ++ check (runes_of_ascii "options
+    {
+x_y_z// " ++ [27880; 37322]%N ++ runes_of_ascii "
+= 10 ; @lengthOf}
+packet body {
+    @calculatedFrom(
+// trailing space 
+// " ++ [27880; 37322]%N ++ runes_of_ascii "
+""1""
+)	match T as Foo
+    {
+255 :T , }
+,}")).
+Eval vm_compute in ("<<<M2153>>>" ++ check (runes_of_ascii "MetaData BodyLength
+{ int8 Foo
+, string
+    MetaDataX , float zchar ,pack options1
+,asx string_, }
+packet u8x (Foo@lengthOf(charz )
+`" ++ [28040; 24687; 31867; 22411]%N ++ runes_of_ascii "`,  }
+")).
+Eval vm_compute in ("<<<M3964>>>" ++ check (runes_of_ascii "packet A {
+    match k as n {
+        [
+            ""a"", 22, ""c c"", 4, ""e"",
+            66, ""g"", 8, ""i""
+        ] : B,
+        2 : C,
+    },
 }")).
-Eval vm_compute in ("<<<M1049>>>" ++ check (runes_of_ascii "packet A {
-}// c" ++ [6158]%N)).
-Eval vm_compute in ("<<<M132>>>" ++ check (runes_of_ascii "
+Eval vm_compute in ("<<<M2155>>>" ++ check (runes_of_ascii "MetaData BodyLength
+{ int8 Foo
+, string
+    MetaDataX , float zchar ,pack options1
+,asx string_, }
+packet u8x {@lengthOf(charz )
+`" ++ [28040; 24687; 31867; 22411]%N ++ runes_of_ascii "`,  }
+")).
+Eval vm_compute in ("<<<M18>>>" ++ check (runes_of_ascii "MetaData zchar
+{ uint64 Z9_, As f32a  `" ++ [28040; 24687; 31867; 22411]%N ++ runes_of_ascii "` // " ++ [128512]%N ++ runes_of_ascii " emoji
+, char[ 10 ]	options1 //	t
+`tab	here` , rootA trueish //x
+``, i32 Foo `{ , }` ,}
+")).
+Eval vm_compute in ("<<<M2041>>>" ++ check (runes_of_ascii "
+packet leftPad " ++ [233]%N ++ runes_of_ascii " {
+@leftPad( '0')
+u32
+i64_ `100% of %d` ,repeat// 50% %s
+i8 chars
+    ,
+} MetaData
+    f32a
+{ // packet A { u8 x, }
+}")).
+Eval vm_compute in ("<<<M2034>>>" ++ check (runes_of_ascii "
+packet leftPad {
+@leftPad( '0')
+u32
+i64_ `100% of %d` ,repeat// 50% %s
+i8 chars
+    ,
+} MetaData
+    f32a
+{ // p" ++ [0]%N ++ runes_of_ascii "acket A { u8 x, }
+}")).
+Eval vm_compute in ("<<<M1958>>>" ++ check (runes_of_ascii "
+packet leftPad {
+@leftPad( '0'u32
+)
+i64_ `100% of %d` ,repeat// 50% %s
+i8 chars
+    ,
+} MetaData
+    f32a
+{ // packet A { u8 x, }
+}")).
+Eval vm_compute in ("<<<M2275>>>" ++ check (runes_of_ascii "options
+    {
+x_y_z// " ++ [27880; 37322]%N ++ runes_of_ascii "
+= 10 ; }
+packet body {
+    @calculatedFrom(
+// trailing space 
+// " ++ [27880; 37322]%N ++ runes_of_ascii "
+""1""
+)	T match as Foo
+    {
+255 :T , }
+,}")).
+Eval vm_compute in ("<<<M2223>>>" ++ check (runes_of_ascii "options
+    {
+x_y_z// " ++ [27880; 37322]%N ++ runes_of_ascii "
+ 10 ; }
+packet body {
+    @calculatedFrom(
+// trailing space 
+// " ++ [27880; 37322]%N ++ runes_of_ascii "
+""1""
+)	match T as Foo
+    {
+255 :T , }
+,}")).
+Eval vm_compute in ("<<<M3658>>>" ++ check (runes_of_ascii "
+packet A
+{
+
+    u16
+    len@lengthOf(body 
+)  `a
+b`
+
+    , 
+u32 crc
+	@calculatedFrom(
+""CRC32"")  `a
+b`
+,
+    string	body,}
+
+")).
+Eval vm_compute in ("<<<M2428>>>" ++ check (runes_of_ascii "MetaData
+    calculatedFrom
+{ zchar[  10 ]
+    As`tab	here`? ,
+    }// trailing space 
+options  { roots ='\x00' ; } packet A
+{ }
+")).
+Eval vm_compute in ("<<<M1941>>>" ++ check (runes_of_ascii "
+packet leftPad {
+( '0')
+u32
+i64_ `100% of %d` ,repeat// 50% %s
+i8 chars
+    ,
+} MetaData
+    f32a
+{ // packet A { u8 x, }
+}")).
+Eval vm_compute in ("<<<M980>>>" ++ check (runes_of_ascii "options {u128 //
+= 4294967296 ; BodyLength
+//	t
+// c
+=string
+    Packet// " ++ [27880; 37322]%N ++ runes_of_ascii "
+= // @lengthOf(
+' ' u8x= ""x y"" ; asx= 255 ; }
+")).
+Eval vm_compute in ("<<<M3656>>>" ++ check (runes_of_ascii "packet A {
+    Inner {
+        u8 x `a
+        b`,
+        Deep {
+            u8 y `a
+            b`,
+        },
+    },
+}")).
+Eval vm_compute in ("<<<M1875>>>" ++ check (runes_of_ascii "packet o {
+    roots `it's`
+// trailing space 
+//x
+, char[ 42
+    ]  char, // " ++ [27880; 37322]%N ++ runes_of_ascii "
+f64
+repeatCount
+    `crlf
+line`
+,}")).
+Eval vm_compute in ("<<<M4197>>>" ++ check (runes_of_ascii "
+
+  packet 
+A{ match
+	k
+
+    as n {[
+""a"" ,
+22
+,  ""c c""	, 4
+    ,
+	""e""
+
+,66  ,
+""g""
+] 
+:
+B
+
+    2 :
+
+C } ,
+    }")).
+Eval vm_compute in ("<<<M1864>>>" ++ check (runes_of_ascii "packet o {
+    roots `it's`
+// trailing space 
+//x
+, char[ ]
+    42  A, // " ++ [27880; 37322]%N ++ runes_of_ascii "
+f64
+repeatCount
+    `crlf
+line`
+,}")).
+Eval vm_compute in ("<<<M4218>>>" ++ check (runes_of_ascii "MetaData i8i8 {
+    rootA stringy,
+    char[4294967296] asx,
+    i8 uint8x,
+    zchar int,
+}// `tick` ""quote"" 'q'")).
+Eval vm_compute in ("<<<M1110>>>" ++ check (runes_of_ascii "MetaData metadata  {x tag , float64
+chars
+,// packet A { u8 x, }
+}	root	packet Pad
+    {
+} options
+    {
+    }")).
+Eval vm_compute in ("<<<M2975>>>" ++ check (runes_of_ascii "packet A {
+  match k as n {
+    [""a"", ""bb"", ""c c"", ""d"", ""e"", ""f"", ""g"", ""h"", ""i"", ""j""] : B,
+    2 : C
+  },
+}")).
+Eval vm_compute in ("<<<M1691>>>" ++ check (runes_of_ascii "// 50% %s
+packet	a1
+    { zchar[
+// a // b
+// 50% %s
+007]
+T `it's`
+    ,@rightPad
+    // a // b
+    (
+")).
+Eval vm_compute in ("<<<M1304>>>" ++ check (runes_of_ascii "packet stringy { } // packet A { u8 x, }
+options { }	MetaData  A {float32 trueish ,
+// " ++ [27880; 37322]%N ++ runes_of_ascii "
+// a // b
+}")).
+Eval vm_compute in ("<<<M2994>>>" ++ check (runes_of_ascii "packet A {
+  match k as n {
+    [1, 22, ""c c"", 4, 5, ""f"", 7, 8, ""i"", 10, 11] : B,
+    2 : C
+  },
+}")).
+Eval vm_compute in ("<<<M3630>>>" ++ check (runes_of_ascii "MetaData
+
+    Foo
+
+{ zchar[ 
+0 // c
+	  ] matchKey	, 
+} options {lengthOf =i32 u = 00;
+    }
+")).
+Eval vm_compute in ("<<<M674>>>" ++ check (runes_of_ascii "
+packet chars
+{ @tag(
+    //	t
+    007 )  @rightPad
+( )  int64 Header`// not a comment` ,	}
+")).
+Eval vm_compute in ("<<<M1463>>>" ++ check (runes_of_ascii "packet
+T
+{ match repeatCount as	calculatedFrom
+{ [65535 ] ]	: As	,
+} ,}
+// trailing space 
+")).
+Eval vm_compute in ("<<<M1512>>>" ++ check (runes_of_ascii "packet
+T
+{ matc%h repeatCount as	calculatedFrom
+{ [65535 ]	: As	,
+} ,}
+// trailing space 
+")).
+Eval vm_compute in ("<<<M1489>>>" ++ check (runes_of_ascii "packet
+T
+{ match repeatCount as	calculatedFrom
+{ [65535 ]	: As	,
+} },
+// trailing space 
+")).
+Eval vm_compute in ("<<<M2954>>>" ++ check (runes_of_ascii "packet A {
+  match k as n {
+    [""a"", 22, ""c c"", 4, ""e"", 66, ""g"", 8] : B
+    2 : C
+  },
+}")).
+Eval vm_compute in ("<<<M2923>>>" ++ check (runes_of_ascii "packet A {
+  match k as n {
+    [""a"", ""bb"", ""c c"", ""d"", ""e"", ""f""] : B,
+    2 : C
+  },
+}")).
+Eval vm_compute in ("<<<M3714>>>" ++ check (runes_of_ascii "packet A {
+    match k as n {
+        [""a"", 22, ""c c"", 4] : B,
+        2 : C,
+    },
+}")).
+Eval vm_compute in ("<<<M1727>>>" ++ check (runes_of_ascii "options{  lengthOf i16//x
+=;
+    BodyLength = 0 ; pack
+= false;
+    A = char[ 3 ] }")).
+Eval vm_compute in ("<<<M1750>>>" ++ check (runes_of_ascii "options{  lengthOf =//x
+i16;
+    BodyLength =  ; pack
+= false;
+    A = char[ 3 ] }")).
+Eval vm_compute in ("<<<M1445>>>" ++ check (runes_of_ascii "packet
+T
+{ match repeatCount as	int64
+{ [65535 ]	: As	,
+} ,}
+// trailing space 
+")).
+Eval vm_compute in ("<<<M983>>>" ++ check (runes_of_ascii "MetaData float
+    { MetaDataX
+i8i8	`it's` ,} packet x_y_z { } packet float{ }")).
+Eval vm_compute in ("<<<M3262>>>" ++ check (runes_of_ascii "MetaData Foo { zchar[ 0 ] matchKey , }
+// c
+options { lengthOf = i32 u = 00 ; }")).
+Eval vm_compute in ("<<<M127>>>" ++ check (runes_of_ascii "options {	string_ =u32 ;
+//x
+// `tick` ""quote"" 'q'
+options1 = ""`tick`"" ;
+} 	 ")).
+Eval vm_compute in ("<<<M202>>>" ++ check (runes_of_ascii "MetaData i64_
+    { lengthOf tag ,
+char[] falsey `a\`
+/// triple
+//	t
+,}
+")).
+Eval vm_compute in ("<<<M2902>>>" ++ check (runes_of_ascii "packet A {
+  match k as n {
+    [""a"", 22, ""c c"", 4] : B
+    2 : C
+  },
+}")).
+Eval vm_compute in ("<<<M2888>>>" ++ check (runes_of_ascii "packet A {
+  match k as n {
+    [""a"", 22, ""c c""] : B,
+    2 : C
+  },
+}")).
+Eval vm_compute in ("<<<M4082>>>" ++ check (runes_of_ascii "  packet A
+
+{ B
+
+b  `%`
+,	B
+    `%` ,	repeat
+    B
+bs
+    `%`
+,  }
+")).
+Eval vm_compute in ("<<<M3402>>>" ++ check (runes_of_ascii "root packet P {
+    u8 s_u8,
+    repeat u8 r_u8,
+    u16 b_len,
+}
+")).
+Eval vm_compute in ("<<<M1481>>>" ++ check (runes_of_ascii "packet
+T
+{ match repeatCount as	calculatedFrom
+{ [65535 ]	: As")).
+Eval vm_compute in ("<<<M2709>>>" ++ check (runes_of_ascii "zchar[ @calculatedFrom( float32 @calculatedFrom( uint64 u8 as")).
+Eval vm_compute in ("<<<M543>>>" ++ check (runes_of_ascii "  packet MetaDataX
+{ body, @tag(
+    00
+)
+options1`a\`
+,
+}")).
+Eval vm_compute in ("<<<M4426>>>" ++ check (runes_of_ascii "MetaData i64_ {
+    lengthOf tag,
+    char[] falsey `a\`,
+}")).
+Eval vm_compute in ("<<<M1545>>>" ++ check (runes_of_ascii "// 50% %s
+packet	a1
+    { zchar[
+// a // b
+// 50% %s
+007")).
+Eval vm_compute in ("<<<M1811>>>" ++ check (runes_of_ascii "options{  lengthOf =//x
+i16;
+    BodyLength = 0 ; pac")).
+Eval vm_compute in ("<<<M3201>>>" ++ check (runes_of_ascii "packet A { B { // a
+ u8 x, // b
+ } // c
+ , // d
+ }")).
+Eval vm_compute in ("<<<M1451>>>" ++ check (runes_of_ascii "packet
+T
+{ match repeatCount as	calculatedFrom")).
+Eval vm_compute in ("<<<M2806>>>" ++ check (runes_of_ascii "options f64 [ = @tag( [ @lengthOf( char @tag(")).
+Eval vm_compute in ("<<<M3046>>>" ++ check (runes_of_ascii "MetaData M {
+    u8 x `x
+`,
+    T t `x
+`,
+}")).
+Eval vm_compute in ("<<<M3584>>>" ++ check (runes_of_ascii "  packet A {u8 x
+
+    `x
+`
+
+    ,
+
+} ")).
+Eval vm_compute in ("<<<M2357>>>" ++ check (runes_of_ascii "MetaData
+Foo Foo {Header //
+pack ,	} 	 ")).
+Eval vm_compute in ("<<<M2567>>>" ++ check (runes_of_ascii "packet A { repeat u8 x @lengthOf(y), }")).
+Eval vm_compute in ("<<<M3892>>>" ++ check (runes_of_ascii "root packet u128 {
+    chars `doc`,
+}")).
+Eval vm_compute in ("<<<M4394>>>" ++ check (runes_of_ascii "
+options { 
 
 // c
+
+u8x
+	= false 
+}
 ")).
-Eval vm_compute in ("<<<M319>>>" ++ check (runes_of_ascii "
-//
+Eval vm_compute in ("<<<M2592>>>" ++ check (runes_of_ascii "packet A { string x @lengthOf(y) }")).
+Eval vm_compute in ("<<<M1040>>>" ++ check (runes_of_ascii "  root  packet T { // " ++ [128512]%N ++ runes_of_ascii " emoji
+}")).
+Eval vm_compute in ("<<<M2632>>>" ++ check (runes_of_ascii "packet A { @leftPad('0' u8 x, }")).
+Eval vm_compute in ("<<<M3119>>>" ++ check (runes_of_ascii "packet A {
+ u8 x `d" ++ [8192]%N ++ runes_of_ascii "`, // c" ++ [8192]%N ++ runes_of_ascii "
+}")).
+Eval vm_compute in ("<<<M34>>>" ++ check (runes_of_ascii "options
+    //	t
+    { //x
+}")).
+Eval vm_compute in ("<<<M1739>>>" ++ check (runes_of_ascii "options{  lengthOf =//x
+i16")).
+Eval vm_compute in ("<<<M2762>>>" ++ check (runes_of_ascii "gD0;l(C""k/[A#,dG_9#{X=RoI<")).
+Eval vm_compute in ("<<<M2604>>>" ++ check (runes_of_ascii "packet A { B { u8 x, } }")).
+Eval vm_compute in ("<<<M459>>>" ++ check (runes_of_ascii "// `tick` ""quote"" 'q'
+")).
+Eval vm_compute in ("<<<M3180>>>" ++ check (runes_of_ascii "packet A {
+}// a// b")).
+Eval vm_compute in ("<<<M2059>>>" ++ check (runes_of_ascii "MetaData BodyLength")).
+Eval vm_compute in ("<<<M2734>>>" ++ check (runes_of_ascii "|\PcZ#sQ r=2-DMj1}")).
+Eval vm_compute in ("<<<M3163>>>" ++ check (runes_of_ascii "// c" ++ [8203]%N ++ runes_of_ascii "
+packet A {
+}")).
+Eval vm_compute in ("<<<M3110>>>" ++ check (runes_of_ascii "packet A {
+}// c" ++ [5760]%N)).
+Eval vm_compute in ("<<<M2780>>>" ++ check (runes_of_ascii "u8 zchar[ ; true")).
+Eval vm_compute in ("<<<M2846>>>" ++ check (runes_of_ascii "@tag( char[ as")).
+Eval vm_compute in ("<<<M1431>>>" ++ check (runes_of_ascii "packet
+T
+{")).
+Eval vm_compute in ("<<<M2824>>>" ++ check ([65533; 26]%N ++ runes_of_ascii "h%" ++ [20]%N ++ runes_of_ascii "B" ++ [65533]%N ++ runes_of_ascii "k" ++ [65533]%N)).
+Eval vm_compute in ("<<<M2719>>>" ++ check (runes_of_ascii "f:eX?hH")).
+Eval vm_compute in ("<<<M2434>>>" ++ check (runes_of_ascii "char[")).
+Eval vm_compute in ("<<<M3126>>>" ++ check (runes_of_ascii "// c" ++ [8232]%N)).
+Eval vm_compute in ("<<<M2690>>>" ++ check (runes_of_ascii "
+	 ")).
+Eval vm_compute in ("<<<M2557>>>" ++ check (runes_of_ascii "a" ++ [12]%N ++ runes_of_ascii "b")).
+Eval vm_compute in ("<<<M16>>>" ++ check (runes_of_ascii "
 ")).
